@@ -12,2145 +12,1944 @@ Definition show_fres (r : fres) : string :=
   end.
 Definition check (rs : list rune) : string := digest (show_fres (format_res rs)).
 Definition full (rs : list rune) : string := show_fres (format_res rs).
-Eval vm_compute in ("<<<M4087>>>" ++ check (runes_of_ascii "  MetaData 
-float {
-lengthOf u128
-    `tab	here`,
-u
-    x ,
-
-    metadata	crc`line1
-line2`
-	,} 
-root
-    packet //
-
-  trueish
-{ @leftPad
-(
-'0')repeat
-	zchar[10
-
-]lengthOf  `u8 x,`,@leftPad
-// " ++ [27880; 37322]%N ++ runes_of_ascii "
-
-  // trailing space 
-		( '\x00' )
-zchar[  255
-    ]
-    tag 
-  // a // b
-
-// @lengthOf(
-	, 
-@leftPad
-
-( 
-)
-u128
-
-    trueish , chars	@lengthOf( 
-i64_ )
-
-    `it's` 	 //	t
-  , @tag( 10	) zchar[007
-
-    ]
-
-    asx,
-
-char[1 
-]	zchar ,
-    // `tick` ""quote"" 'q'
-  // trailing space 
-@tag(
-7
-        // packet A { u8 x, }
-	)
-@calculatedFrom( ""packet""
-
-)match
-
-    f32a
-    as	uint8x
-    {
-00
-
-    :
-	Header
-
-    ,007  // trailing space 
-	:charz
-    ,
-
-    [ 255 ,""" ++ [233]%N ++ runes_of_ascii "t" ++ [233]%N ++ runes_of_ascii """
-    ]: 
-rootA 
-        // `tick` ""quote"" 'q'
-  ""it's"":
-
-    lengthOf , ""x y""
-
-:
-pack//x
-,
-	""" ++ [28040; 24687]%N ++ runes_of_ascii """ 
-: _x,
-}
-    , repeat
-
-    Header	{
-
-char[7] i8i8	,
-	char
-
-    msg_type  @lengthOf( pack 
-)
-	`line1
-line2`,
-	// packet A { u8 x, }
-    // a // b
-    uint8
-crc@lengthOf( zchar
-    )
-`line1
-line2`
-,
-
-}  ,
-}
-packet Foo{} packet 	 // @lengthOf(
-  Foo { zchar[ 0123456789	]packetx @calculatedFrom( ""packet""  // packet A { u8 x, }
-	) `doc`
-
-, 
-zchar
-	@calculatedFrom(  ""\n""	//	t
-	)  `
-` ,	@leftPad 
-(
-'\x00')
-    @tag(// trailing space 
-	65535
-
-) char[
-	0
-
-/// triple
-  	// c
-
-	]
-metadata
-@calculatedFrom(  ""a\""b"" )
-	,
-repeat
-
-    lengthOf {
-
-    lengthOf`" ++ [233]%N ++ runes_of_ascii "` 
-    // `tick` ""quote"" 'q'
-, }
-
-,As 
-,
-
-    }packet BodyLength{  //x
-  	@calculatedFrom(
-""a\""b"") @lengthOf( x) 
-@tag( 00  ) Packet 
-zchar ``
-	,@tag(
-	0123456789
-	) repeat
-    char[255
-
-    ]
-x`it's` 
-,	// a // b
-  u  
-  // " ++ [128512]%N ++ runes_of_ascii " emoji
-// c
-  	{
-    match
-BodyLength
-as 
-// packet A { u8 x, }
-    // `tick` ""quote"" 'q'
-	tag
-	{ 3  :matchKey
-    ,}  ,}
-,
-	@tag(  0123456789
-
-    )
-	// " ++ [128512]%N ++ runes_of_ascii " emoji
-	char asx
-`line1
-line2` ,
-@lengthOf( 
-chars
-)
-	@calculatedFrom(""a	b"" )
-f64
-    len ,match
-int
-
-    as	//x
-    	BodyLength
-{
-1 :
-
-Header ,[
-    0	]	: // c
-
-  tag """ ++ [28040; 24687]%N ++ runes_of_ascii """
-:
-
-    asx ,	} ,  @leftPad  (' ' )
-	metadata 
-`crlf
-line` , 
-
-// `tick` ""quote"" 'q'
-
-// trailing space 
-len
-
-    @lengthOf( metadata
-	) , zchar[
-
-    65535	] A
-	@lengthOf(// c
-
-	trueish  )
-, @leftPad ( '0' )  repeatCount
-
-Z9_
-
-`" ++ [233]%N ++ runes_of_ascii "` ,
-}")).
-Eval vm_compute in ("<<<M4317>>>" ++ check (runes_of_ascii "MetaData float {
-    lengthOf u128 `tab	here`,
-    u x,
-    metadata crc `line1
-    line2`,
-}
-
-root packet trueish {
-    @leftPad('0')
-    repeat zchar[10] lengthOf `u8 x,`,
-    @leftPad('\x00')
-    zchar[255] tag,
-    @leftPad()
-    u128 trueish,
-    chars @lengthOf(i64_) `it's`,
-    @tag(10)
-    zchar[007] asx,
-    char[1] zchar,
-    @tag(7)
-    @calculatedFrom(""packet"")
-    match f32a as uint8x {
-        00 : Header,
-        007 : charz,
-        [255, """ ++ [233]%N ++ runes_of_ascii "t" ++ [233]%N ++ runes_of_ascii """] : rootA,
-        // `tick` ""quote"" 'q'
-        ""it's"" : lengthOf,
-        ""x y"" : pack,
-        """ ++ [28040; 24687]%N ++ runes_of_ascii """ : _x,
-    },
-    repeat Header {
-        char[7] i8i8,
-        char msg_type @lengthOf(pack) `line1
-        line2`,
-        // packet A { u8 x, }
-        // a // b
-        uint8 crc @lengthOf(zchar) `line1
-        line2`,
-    },
-}
-
-packet Foo {
-}
-
-packet Foo {
-    zchar[0123456789] packetx @calculatedFrom(""packet"") `doc`,
-    zchar @calculatedFrom(""\n"") `
-    `,
-    @leftPad('\x00')
-    @tag(65535)
-    char[0] metadata @calculatedFrom(""a\""b""),
-    repeat lengthOf {
-        lengthOf `" ++ [233]%N ++ runes_of_ascii "`,
-    },
-    As,
-}
-
-packet BodyLength {
-    @calculatedFrom(""a\""b"")
-    @lengthOf(x)
-    @tag(00)
-    Packet zchar ``,
-    @tag(0123456789)
-    repeat char[255] x `it's`,// a // b
-    u {
-        match BodyLength as tag {
-            3 : matchKey,
-        },
-    },
-    @tag(0123456789)
+Eval vm_compute in ("<<<M980>>>" ++ check (runes_of_ascii "packet
+trueish {
+Packet{u8x
     // " ++ [128512]%N ++ runes_of_ascii " emoji
-    char asx `line1
-    line2`,
-    @lengthOf(chars)
-    @calculatedFrom(""a	b"")
-    f64 len,
-    match int as BodyLength {
-        1 : Header,
-        [0] : tag,
-        """ ++ [28040; 24687]%N ++ runes_of_ascii """ : asx,
-    },
-    @leftPad(' ')
-    metadata `crlf
-    line`,
+    { match Packet as f32a//	t
+{ [255  ,255, 1 ] :calculatedFrom ,
+    // packet A { u8 x, }
+    ""// no comment""  : a1// c
+,  10
+    :
+Foo
+    //
+    , ""\" ++ [233]%N ++ runes_of_ascii """ :
+//
+// packet A { u8 x, }
+repeatCount , ""abc"" :MetaDataX
+    , 00:u128}
+, repeat o //x
+roots
+`tab	here` , // @lengthOf(
+int16 packetx`" ++ [28040; 24687; 31867; 22411]%N ++ runes_of_ascii "` ,
+}, } ,crc @lengthOf(i8i8 )	``
+,
+repeat uint8 body ,@leftPad	( '\x00' ) string packetx@calculatedFrom(	""packet""
+) , f64
+int
+    `line1
+line2`
+, } packet crc {	i32 u128 `line1
+line2`  , @tag( 42 )lengthOf {
+    leftPad@lengthOf(
+    repeatCount
+    ) , u16 _x ,match rootA as// `tick` ""quote"" 'q'
+msg_type
+    { [ """"
+    ] : Z9_ 0
+/// triple
+// `tick` ""quote"" 'q'
+: tag ""\" ++ [233]%N ++ runes_of_ascii """	: As,""1"" :Logon //	t
+,00	: A 3:BodyLength ,	} , } ,	@tag( 1 )int8
+Pad
+, zchar[ 65535
     // `tick` ""quote"" 'q'
+    ]
+asx // trailing space 
+,
+}
+options
+{trueish
     // trailing space 
-    len @lengthOf(metadata),
-    zchar[65535] A @lengthOf(trueish),
-    @leftPad('0')
-    repeatCount Z9_ `" ++ [233]%N ++ runes_of_ascii "`,
-}")).
-Eval vm_compute in ("<<<M3755>>>" ++ check (runes_of_ascii "root packet Logon {
-    char[7] calculatedFrom @calculatedFrom(""// no comment"") `two words`,
-    uint16 MetaDataX `u8 x,`,
-    string a1 @lengthOf(Logon),
-    @tag(0)
-    @lengthOf(u8x)
-    @calculatedFrom(""it's"")
-    string zchar `doc`,
-    @lengthOf(x_y_z)
-    // trailing space 
-    trueish {
-        Z9_ {
-            match float as lengthOf {
-                00 : _x,
-            },
-            repeat x_y_z {
-                u8x uint8x,
-            },
-            char[007] x_y_z,
-        },
-        Z9_ `" ++ [28040; 24687; 31867; 22411]%N ++ runes_of_ascii "`,
+    =	false ; } packet Packet	{ @calculatedFrom( ""abc"" ) u {repeat Logon {
+char[] msg_type @calculatedFrom(
+    // packet A { u8 x, }
+    ""a\""b""
+    )	`// not a comment`, }, repeat char[ // a // b
+00]
+rootA , }
+    ,
+// " ++ [128512]%N ++ runes_of_ascii " emoji
+//
+@calculatedFrom(""abc"" )string
+    float,
+match Foo as Z9_{ [	0 , ""packet"" // packet A { u8 x, }
+, ""a	b"" , 007 , 4294967296 , ""\n"" ]
+    :trueish
+,
+[ 65535, """ ++ [28040; 24687]%N ++ runes_of_ascii """] : u8x 65535:roots
+    // a // b
+    [""CRC32""]: falsey ,  00
+// `tick` ""quote"" 'q'
+// `tick` ""quote"" 'q'
+: roots
+,} , @rightPad (	' ' // packet A { u8 x, }
+)
+    x_y_z @calculatedFrom(
+""\" ++ [233]%N ++ runes_of_ascii """ )
+, }packet matchKey {// c
+@tag( 7	) leftPad
+@calculatedFrom(""\" ++ [233]%N ++ runes_of_ascii """ )
+`" ++ [233]%N ++ runes_of_ascii "`  ,  @tag(
+    007 ) uint8
+leftPad
+, int {i16 x``
+, match
+    len
+    as
+    f32a {""it's"":calculatedFrom	,  [ 0
+] : lengthOf
+, 7 // @lengthOf(
+: // packet A { u8 x, }
+x_y_z
+, ""a\""b"" : float
+    // c
+    ,1
+    :Pad,  } , } , o {
+    // @lengthOf(
+    u8x
+    metadata`tab	here` , asx
+    {
+    match // trailing space 
+int
+    // c
+    as
+    /// triple
+    x_y_z
+/// triple
+// packet A { u8 x, }
+{ ""a	b"" :  falsey}
+    ,	}
+, repeat int16 As  `crlf
+line`// c
+, }
+    // " ++ [27880; 37322]%N ++ runes_of_ascii "
+    , i32 i64_  `" ++ [233]%N ++ runes_of_ascii "`
+//	t
+/// triple
+,T , }
+// c
+")).
+Eval vm_compute in ("<<<M4498>>>" ++ check (runes_of_ascii "// " ++ [27880; 37322]%N ++ runes_of_ascii "
+options {
+    zchar = ""x y"";
+    options1 = u16;
+}
+
+packet Pad {
+    Z9_ @calculatedFrom("""") `
+    `,
+    @tag(42)
+    //
+    @tag(00)
+    @lengthOf(zchar)
+    match _x as metadata {
+        007 : As,
+        ""`tick`"" : lengthOf,
+        255 : lengthOf,
+        ""a	b"" : Packet,
+        255 : a1,
+        // c
+        [
+            00, 0, 10, ""a\\"", ""it's"",
+            10, 7
+        ] : Foo,
     },
-    f32a {
-        repeat zchar[0123456789] A,
-        repeat i64 stringy,
-        leftPad `crlf
-                line`,
+    match Header as o {
+        [255] : zchar,
+        0123456789 : leftPad,
+        [007, 3] : leftPad,
+        // c
+        0 : packetx,
     },
 }
 
-packet u128 {
-    match _x as MetaDataX {
-        [42, ""x y""] : A,
+MetaData Pad {
+    // packet A { u8 x, }
+}
+
+packet T {
+    // " ++ [27880; 37322]%N ++ runes_of_ascii "
+    charz @lengthOf(asx) ``,
+}
+
+packet matchKey {
+    @tag(3)
+    @calculatedFrom(""a	b"")
+    @calculatedFrom("""")
+    pack rootA,
+    repeat leftPad ``,
+    repeat uint32 Foo `u8 x,`,
+    @calculatedFrom(""" ++ [233]%N ++ runes_of_ascii "t" ++ [233]%N ++ runes_of_ascii """)
+    repeat char[65535] u,
+    @lengthOf(_x)
+    @lengthOf(u8x)
+    repeat zchar[0123456789] x,
+    match i64_ as falsey {
+        // trailing space 
+        255 : f32a,
+        ""{,}"" : x,
+        ""\" ++ [233]%N ++ runes_of_ascii """ : matchKey,
+        [
+            """", ""{,}"", 10, """ ++ [128512]%N ++ runes_of_ascii """, ""a	b"",
+            0, ""1"", 65535
+        ] : len,
+        ""\" ++ [233]%N ++ runes_of_ascii """ : T,
+        [
+            ""CRC32"", 1, ""// no comment"", 007, 1,
+            ""`tick`"", """ ++ [128512]%N ++ runes_of_ascii """
+        ] : a1,
     },
-    @lengthOf(charz)
-    charz {
-        match x_y_z as f32a {
-            [007, 10, 42, 0123456789, """ ++ [233]%N ++ runes_of_ascii "t" ++ [233]%N ++ runes_of_ascii """] : x_y_z,
-            // @lengthOf(
-            7 : u128,
-            ""// no comment"" : repeatCount,
-            ""a\\"" : int,
-            ""x y"" : u128,
+    match x as As {
+        ""a	b"" : o,
+        007 : MetaDataX,
+        [""a	b""] : falsey,
+        ""// no comment"" : Z9_,
+        ""packet"" : _x,
+    },
+    repeat rootA {
+        uint8 MetaDataX @calculatedFrom(""abc""),
+        match int as asx {
+            [10, 10, ""`tick`"", 00, 4294967296] : o,
+            ""CRC32"" : string_,
+            [0] : roots,
+            65535 : _x,
+            ""it's"" : Pad,
+            4294967296 : Pad,
         },
+        u16 chars `line1
+        line2`,//x
     },
-    i16 chars @lengthOf(zchar) `u8 x,`,
+}")).
+Eval vm_compute in ("<<<M4242>>>" ++ check (runes_of_ascii "MetaData leftPad {
+    Header falsey,
+}
+
+packet x_y_z {
+    @calculatedFrom(""`tick`"")
+    @rightPad('\x00')
+    match matchKey as As {
+        [""CRC32"", ""\n""] : Logon,
+        [007, """ ++ [28040; 24687]%N ++ runes_of_ascii """, """ ++ [28040; 24687]%N ++ runes_of_ascii """, """ ++ [128512]%N ++ runes_of_ascii """, 0123456789] : x,
+        [1] : i8i8,
+        ""`tick`"" : u8x,
+    },
+    int64 _x `tab	here`,
+    @rightPad()
+    char[255] uint8x `a\`,
+    string string_,
+    repeat int16 packetx,// " ++ [27880; 37322]%N ++ runes_of_ascii "
+    @rightPad(' ')
+    string string_,
+    i16 asx @lengthOf(int) `// not a comment`,
+    float32 uint8x,
+    i8 i64_ @calculatedFrom(""\n""),
+}
+
+packet T {
+    string_ @lengthOf(A) `{ , }`,
+    @calculatedFrom("""")
+    match Pad as u {
+        [""1"", ""1""] : body,
+        [0123456789, ""a\\"", """ ++ [128512]%N ++ runes_of_ascii """, ""it's"", ""it's""] : lengthOf,
+        """ ++ [128512]%N ++ runes_of_ascii """ : A,
+        [0123456789, 3] : rootA,
+        4294967296 : rootA,
+    },
+    string metadata @lengthOf(A),
+    @lengthOf(msg_type)
+    @rightPad(' ')
+    @rightPad()
+    f64 u128 @lengthOf(rootA) `{ , }`,
+}
+
+packet int {
+    @tag(255)
+    @rightPad(' ')
+    repeat char[10] u128,
+    @calculatedFrom(""\" ++ [233]%N ++ runes_of_ascii """)
+    char[007] calculatedFrom,
+    @rightPad('\x00')
+    repeat zchar[007] i8i8,
+    @calculatedFrom(""// no comment"")
+    char[] x_y_z,
+    zchar[0123456789] msg_type @calculatedFrom(""a\""b""),
+    u8 f32a @lengthOf(rootA) `crlf
+        line`,
+    zchar[7] msg_type @lengthOf(Header) `// not a comment`,
+    char[42] roots `" ++ [233]%N ++ runes_of_ascii "`,
+    @lengthOf(stringy)
+    @lengthOf(As)
+    // trailing space 
+    // " ++ [128512]%N ++ runes_of_ascii " emoji
+    zchar[7] msg_type `{ , }`,
+}
+
+root packet u {
+    // c
+    repeat uint64 As,
+}")).
+Eval vm_compute in ("<<<M641>>>" ++ check (runes_of_ascii "options { T=""it's"" ; // trailing space 
+Z9_  =""\" ++ [233]%N ++ runes_of_ascii """
+int = '\x00'u8x  =	""`tick`""crc
+=""packet"" ;	} root // packet A { u8 x, }
+packet string_ { match charz
+//x
+// c
+as u { // " ++ [128512]%N ++ runes_of_ascii " emoji
+0123456789 :
+    zchar , 42
+    // packet A { u8 x, }
+    :rootA ,  007:
+//	t
+// packet A { u8 x, }
+crc , """ ++ [28040; 24687]%N ++ runes_of_ascii """ : Foo[
+007	, ""x y"" ] :int , // " ++ [27880; 37322]%N ++ runes_of_ascii "
+}
+,
+    @tag(  7
+// a // b
+// @lengthOf(
+) repeat
+// `tick` ""quote"" 'q'
+//
+metadata, string len // a // b
+@lengthOf( o ) `crlf
+line` , repeat int32 falsey `
+`
+// a // b
+// " ++ [27880; 37322]%N ++ runes_of_ascii "
+, @leftPad( )
+x
+    @calculatedFrom(
+    ""// no comment"" )`// not a comment`
+,uint16 rootA , @lengthOf( a1// `tick` ""quote"" 'q'
+) char calculatedFrom , @tag( /// triple
+3 ) zchar[ 65535 ]	body ,}
+packet Logon // `tick` ""quote"" 'q'
+{ @leftPad (/// triple
+)@tag( 7 )
+char
+u128 `say ""hi""` ,
+@tag( 10 ) char[42  ]
+    roots , } root // " ++ [27880; 37322]%N ++ runes_of_ascii "
+packet	i64_ {
+    repeat
+    _x { repeat
+    // @lengthOf(
+    MetaDataX o //x
+, } , u128 { asx { u8 a1  ,
+repeat	As, // a // b
+}	,} ,
+    int16 Foo ,
+    u64
+asx `
+` , u8x @lengthOf( crc ) //	t
+, @calculatedFrom(
+    // `tick` ""quote"" 'q'
+    ""CRC32"" ) @lengthOf(body	) @tag( 7 ) falsey
+//x
+// a // b
+body
+`{ , }` ,	MetaDataX { trueish
+MetaDataX`tab	here` , char[ 3 ] i8i8
+@calculatedFrom(""" ++ [128512]%N ++ runes_of_ascii """  )
+`" ++ [233]%N ++ runes_of_ascii "`, },
+}options { _x
+=false
+    _x
+    =// c
+char[
+    0123456789 ]	repeatCount
+=
+    ' '_x = ""packet"";
+}
+
+")).
+Eval vm_compute in ("<<<M3644>>>" ++ check (runes_of_ascii "// top
+options
+    // c0
+{ // c1a
+  // c1b
+LittleEndian // c2
+= // c3
+false // c4a
+  // c4b
+;
+    // c5
+ArrayPrefixLenType // c6a
+  // c6b
+= u8 ; // c9
+FixedStringPadChar
+    // c10
+= // c11
+'0'
+    // c12
+; // c13a
+  // c13b
+}
+    // c14
+packet // c15
+Order // c16a
+  // c16b
+{ InNote94 // c18
+{ // c19
+f32 // c20
+f1
+    // c21
+,
+    // c22
+f64 Side2 // c24
+, // c25
+repeat // c26a
+  // c26b
+InTail47 // c27a
+  // c27b
+{ // c28a
+  // c28b
+char[] // c29a
+  // c29b
+seqNo , // c31
+char[] Tail , // c34a
+  // c34b
+char[] // c35
+lastPx
+    // c36
+,
+    // c37
+} , } // c40a
+  // c40b
+,
+    // c41
+zchar[ 7 // c43
+] f1 // c45
+, // c46
+u8 // c47a
+  // c47b
+Side2 , // c49
+} // c50a
+  // c50b
+root packet // c52
+Reject // c53a
+  // c53b
+{
+    // c54
+repeat // c55a
+  // c55b
+char[ // c56a
+  // c56b
+4
+    // c57
+] // c58
+Flags
+    // c59
+, // c60
+InPrice63 { InSeqno41 { repeat // c65a
+  // c65b
+i8 OrderId
+    // c67
+, repeat // c69a
+  // c69b
+i32 // c70a
+  // c70b
+clOrdID
+    // c71
+, char[ // c73
+9
+    // c74
+] tag7 // c76
+, // c77a
+  // c77b
+char[] // c78a
+  // c78b
+lastPx // c79a
+  // c79b
+, // c80
+} // c81
+, // c82a
+  // c82b
+Order , // c84a
+  // c84b
+uint8 Side2
+    // c86
+, // c87a
+  // c87b
+} ,
+    // c89
+}
+    // c90
+")).
+Eval vm_compute in ("<<<M350>>>" ++ check (runes_of_ascii "packet
+matchKey
+    {	zchar[ 3
+    ]
+// `tick` ""quote"" 'q'
+// packet A { u8 x, }
+A,msg_type
+`a\` , MetaDataX As  , @lengthOf(
+    Z9_ )repeat
+    f32 _x ,
+    @lengthOf(Pad ) uint32 //	t
+Logon
+    , // a // b
+@tag( 4294967296 ) T	`doc` ,
+len  ,
+body { repeat
+    o { match i8i8 as	body{ 65535
+:lengthOf,
+[ ""\n"" ] : i64_ 3
+: asx , [
+""packet""
+,
+    /// triple
+    007	,
+""{,}""  , ""// no comment""
+] : repeatCount ,[ ""// no comment"",
+    7
+    ,	""\" ++ [233]%N ++ runes_of_ascii """, 0123456789 //
+, ""a\""b"" ] : roots
+} ,
+match repeatCount as As
+{ """"
+    /// triple
+    : //	t
+o ,
+    }
+, } , zchar[ 0 ]BodyLength `` ,
+    lengthOf,}, i16 Z9_ , } packet
+    tag { @tag(
+    // `tick` ""quote"" 'q'
+    1 ) repeat float i8i8`" ++ [28040; 24687; 31867; 22411]%N ++ runes_of_ascii "` // `tick` ""quote"" 'q'
+,  @rightPad ( )@lengthOf( _x) @rightPad ( // c
+'0'
+)
+Packet, Foo /// triple
+@lengthOf(
+    u128
+) `doc` ,
+@tag( 007 ) // packet A { u8 x, }
+string repeatCount , o {match leftPad as lengthOf {
+[
+    0123456789  ,
+""1"" ] :
+    x_y_z  , [ """ ++ [128512]%N ++ runes_of_ascii """] : i8i8
+, [// @lengthOf(
+""a\""b"" , ""a	b"" ]
+: Foo , [ ""\" ++ [233]%N ++ runes_of_ascii """ ] : Pad,
+    [ ""a	b"" , 42
+//
+//	t
+, """ ++ [233]%N ++ runes_of_ascii "t" ++ [233]%N ++ runes_of_ascii """ ,	3 ,	""" ++ [28040; 24687]%N ++ runes_of_ascii """,
+    00 ,
+7 ]  : packetx ,
+42
+    //x
+    : falsey,}
+,},}packet body
+{ }")).
+Eval vm_compute in ("<<<M983>>>" ++ check (runes_of_ascii "packet Packet { MetaDataX	{
+// " ++ [128512]%N ++ runes_of_ascii " emoji
+// trailing space 
+zchar[
+    // @lengthOf(
+    255 ] crc
+    @calculatedFrom( ""`tick`"") `doc`
+    , // c
+},
+u32 As`
+`,
+    @lengthOf(
+chars) f64
+leftPad	`// not a comment` ,
+repeat char[ 3 ] len  `doc`
+, match
+u8x as
+chars {4294967296: f32a
+    , [
+255, 4294967296 ]: string_ 0 :chars , // packet A { u8 x, }
+""a\""b"" : options1 7
+: falsey ,	} , @lengthOf( // c
+len
+// `tick` ""quote"" 'q'
+// @lengthOf(
+) repeat char[10
+    // " ++ [27880; 37322]%N ++ runes_of_ascii "
+    ]
+Header `crlf
+line`, // " ++ [27880; 37322]%N ++ runes_of_ascii "
+rootA
+asx
+`two words` ,
+}packet //x
+Packet{ @tag(//
+00 ) u16 asx
+    ,	@calculatedFrom( ""a\""b"" ) charz @lengthOf( a1 )
+, @lengthOf( asx)
+    repeat string
+    falsey
+, u32 options1@lengthOf(
+    packetx) `it's`//x
+,} packet
+metadata { int16 i8i8 ,
+i32 tag
+//x
+//
+`line1
+line2` ,	@calculatedFrom( ""a\\""
+//x
+//	t
+) // trailing space 
+@lengthOf( repeatCount )
+MetaDataX {
+repeat
+x_y_z,  }
+,lengthOf tag `" ++ [233]%N ++ runes_of_ascii "`
+    ,
+    }
+MetaData//	t
+Foo
+{
+body chars
+, char[] asx `// not a comment`,char u8x
+//
+// a // b
+, x trueish `crlf
+line`
+, char[] options1
+`u8 x,`
+, }")).
+Eval vm_compute in ("<<<M947>>>" ++ check (runes_of_ascii "packet chars {
+    u8 _x@calculatedFrom(
+    """ ++ [233]%N ++ runes_of_ascii "t" ++ [233]%N ++ runes_of_ascii """ )
+, @lengthOf( stringy //
+)
+@calculatedFrom( ""a\""b"" ) repeat options1 {body uint8x
+`doc` ,
+a1 @lengthOf( f32a ) `tab	here` ,
+repeat body // `tick` ""quote"" 'q'
+{ float64 BodyLength
+,
+    } ,
+    // @lengthOf(
+    }  ,@lengthOf(
+uint8x ) chars//	t
+`crlf
+line`
+, @lengthOf( // c
+crc
+    // `tick` ""quote"" 'q'
+    )@tag( 4294967296	)	char[] i8i8`tab	here` , char[]x
+    `// not a comment` ,repeat string uint8x ,	@calculatedFrom( ""// no comment"" ) @calculatedFrom( ""it's""	)	i8 falsey , int @calculatedFrom( """ ++ [233]%N ++ runes_of_ascii "t" ++ [233]%N ++ runes_of_ascii """ )
+,
+    // " ++ [27880; 37322]%N ++ runes_of_ascii "
+    match u128 as Foo {""" ++ [28040; 24687]%N ++ runes_of_ascii """ :trueish,	[ """ ++ [128512]%N ++ runes_of_ascii """//	t
+, ""1"" // a // b
+, 42 ,""" ++ [233]%N ++ runes_of_ascii "t" ++ [233]%N ++ runes_of_ascii """ ] // packet A { u8 x, }
+:
+Pad[0123456789 // packet A { u8 x, }
+]:
+    repeatCount
+007
+:calculatedFrom }
+,
+    // packet A { u8 x, }
+    }options { trueish = 10; //x
+Packet = true ; u128
+= false ; charz	= 007 ;
+    // " ++ [27880; 37322]%N ++ runes_of_ascii "
+    } options  { Pad = ""`tick`""// packet A { u8 x, }
+leftPad = true
+// a // b
+// " ++ [27880; 37322]%N ++ runes_of_ascii "
+charz  = char[] ;	_x = //x
+true }
+
+")).
+Eval vm_compute in ("<<<M4421>>>" ++ check (runes_of_ascii "packet uint8x {
+    zchar[007] Header @calculatedFrom(""a	b""),
+}
+
+packet i64_ {
+    @lengthOf(crc)
+    /// triple
+    string metadata `
+        `,// trailing space 
+    uint8x {
+        repeat u16 string_,
+    },// `tick` ""quote"" 'q'
+    packetx {
+        zchar[0123456789] calculatedFrom @calculatedFrom(""" ++ [28040; 24687]%N ++ runes_of_ascii """) `crlf
+                line`,
+        tag {
+            zchar[007] tag @calculatedFrom(""1""),
+            string u,
+            repeat A T,
+            roots @lengthOf(Logon),
+            // `tick` ""quote"" 'q'
+        },
+        u8x ``,
+        int64 metadata `tab	here`,
+    },
+}
+
+packet rootA {
+    @lengthOf(string_)
+    Header A `doc`,
+    match stringy as x {
+        // c
+        0123456789 : metadata,
+        0 : rootA,
+        42 : A,
+        [00, ""abc""] : T,
+        4294967296 : a1,
+        // @lengthOf(
+    },
+    @rightPad('0')
+    @tag(4294967296)
+    @tag(00)
+    char[] Foo @calculatedFrom(""1"") `crlf
+        line`,
+}")).
+Eval vm_compute in ("<<<M3964>>>" ++ check (runes_of_ascii "MetaData u {
+    metadata x_y_z,
+    i8i8 len `it's`,
+    zchar[42] options1 `{ , }`,
 }
 
 packet u {
-    repeat u options1,/// triple
-    @calculatedFrom(""CRC32"")
-    float32 u128 @lengthOf(u8x) `{ , }`,
-    @leftPad('\x00')
-    i8 crc `say ""hi""`,
+    @calculatedFrom(""abc"")
+    // c
+    // " ++ [27880; 37322]%N ++ runes_of_ascii "
+    char[0123456789] string_ @lengthOf(Logon) `a\`,
+    string string_ @lengthOf(float),
+    char[] crc `line1
+    line2`,
+    @lengthOf(metadata)
+    u128 {
+        char[] T,
+    },
+    f64 As @calculatedFrom(""// no comment""),
+    repeat Z9_ chars `u8 x,`,
+    @calculatedFrom(""packet"")
+    repeat a1 tag,
 }
 
-packet calculatedFrom {
-}
-
-packet pack {
-    zchar[65535] calculatedFrom,
-    len {
-        stringy @lengthOf(body),
+packet A {
+    @tag(7)
+    @rightPad()
+    @tag(0123456789)
+    repeat crc {
+        repeatCount As,
     },
-    @lengthOf(x_y_z)
-    uint8x @lengthOf(tag),
-    @calculatedFrom(""x y"")
-    zchar[65535] tag @calculatedFrom(""a\\"") `" ++ [28040; 24687; 31867; 22411]%N ++ runes_of_ascii "`,
-    i64 uint8x,
-    @lengthOf(int)
-    u8 Pad @lengthOf(o) `{ , }`,
-}")).
-Eval vm_compute in ("<<<M3711>>>" ++ check (runes_of_ascii "packet asx {
-    Logon {
-        body @calculatedFrom(""it's""),// @lengthOf(
-        char[3] MetaDataX,
-        string leftPad `crlf
-                line`,
-        u128 @calculatedFrom(""packet""),
+    match pack as u {
+        ""packet"" : Pad,
+        ""1"" : u8x,
+        007 : Packet,
+        [""packet"", """ ++ [28040; 24687]%N ++ runes_of_ascii """] : BodyLength,
+        ""1"" : asx,
     },
-}//x
-
-packet x_y_z {
-    len {
-        match leftPad as rootA {
-            [
-                007, 0123456789, ""a\\"", ""\" ++ [233]%N ++ runes_of_ascii """, ""`tick`"",
-                ""{,}""
-            ] : falsey,
-            4294967296 : matchKey,
-        },
-        int32 Z9_,
-        a1 {
-            x_y_z,
-            repeat _x `doc`,
-            char[] falsey @lengthOf(u128) `doc`,
-        },
-        match Foo as stringy {
-            7 : asx,
-            ""x y"" : calculatedFrom,
-        },
+    match i64_ as Header {
+        4294967296 : _x,
+        007 : packetx,
+        [007] : A,
+        //	t
     },
+    uint8 BodyLength,
     @lengthOf(i64_)
-    @rightPad('\x00')
-    @tag(42)
-    char[] repeatCount,
-    match Z9_ as int {
-        [255, 7, ""a	b"", ""abc""] : asx,
-        ""1"" : chars,
-        [00, 4294967296, ""a	b""] : leftPad,
-        [
-            65535, 0, 007, 255, 3,
-            ""abc"", ""it's"", ""x y""
-        ] : leftPad,
-        [4294967296] : u,
-        // " ++ [128512]%N ++ runes_of_ascii " emoji
-        // " ++ [128512]%N ++ runes_of_ascii " emoji
-        0123456789 : a1,
-    },
-    x_y_z u8x,
-    asx {
-        repeat Header float `crlf
-                line`,
-        rootA charz `a\`,
-    },
-    @calculatedFrom(""CRC32"")
-    string string_,
-    @tag(65535)
-    @rightPad('\x00')
-    u8x a1 `{ , }`,
+    u8 falsey,
+}")).
+Eval vm_compute in ("<<<M19>>>" ++ check (runes_of_ascii "packet
+int // " ++ [27880; 37322]%N ++ runes_of_ascii "
+{ repeat // @lengthOf(
+MetaDataX // a // b
+{ //	t
+pack
+    { repeat Pad	{ i8 MetaDataX
+, repeat pack	trueish ,
+u
+    // trailing space 
+    charz	`" ++ [233]%N ++ runes_of_ascii "` ,string
+int
+, }	, f64 Z9_
+    ,
+} ,
+} // c
+,	} packet trueish {
+@lengthOf(
+    u)uint8 metadata
+    `" ++ [28040; 24687; 31867; 22411]%N ++ runes_of_ascii "` , match	uint8x
+as roots
+{ """ ++ [233]%N ++ runes_of_ascii "t" ++ [233]%N ++ runes_of_ascii """:
+    Pad 0123456789
+: msg_type// " ++ [27880; 37322]%N ++ runes_of_ascii "
+[ ""1"" ,	0 ,10] //	t
+:
+pack,
+[ ""it's"" ,  ""\" ++ [233]%N ++ runes_of_ascii """ ] :u8x
+, [// " ++ [128512]%N ++ runes_of_ascii " emoji
+0123456789 ] :
+MetaDataX
+    // packet A { u8 x, }
+    , },zchar[	00 ] pack @lengthOf( string_ ),// packet A { u8 x, }
+@tag( 4294967296 )
+x_y_z string_ ,
+    } options {A
+    =true float  =	""" ++ [28040; 24687]%N ++ runes_of_ascii """ ; }
+MetaData Header { zchar[//
+7 // `tick` ""quote"" 'q'
+]u128
+, char[]
+/// triple
+// trailing space 
+u , string_ metadata	,
+uint32 f32a `u8 x,` , } options{// trailing space 
+roots
+    =
+    true;
+int =false ; string_=
+"""" }")).
+Eval vm_compute in ("<<<M1249>>>" ++ check (runes_of_ascii "packet x_y_z { @leftPad ()
+    int8
+//x
+// trailing space 
+x_y_z , @lengthOf( f32a ) repeat
+// c
+// trailing space 
+char[ 7 // trailing space 
+]len , int64 matchKey
+    @calculatedFrom( // `tick` ""quote"" 'q'
+""// no comment""
+)
+, @lengthOf(
+roots )
+@lengthOf(
+MetaDataX	)
+int32
+Packet ,// a // b
+@rightPad( ' ') i8i8
+    // " ++ [128512]%N ++ runes_of_ascii " emoji
+    { char Packet @lengthOf(
+//x
+//x
+crc ) `" ++ [28040; 24687; 31867; 22411]%N ++ runes_of_ascii "`
+,} ,@calculatedFrom( """" )repeat zchar[	255]
+i64_ , @tag( 0123456789
+) Logon // " ++ [27880; 37322]%N ++ runes_of_ascii "
+, @lengthOf(  options1 )
+    int32
+Header // `tick` ""quote"" 'q'
+,
+@leftPad (
+    )
+int64 crc
+    , @lengthOf(As )match  trueish as BodyLength { ""\" ++ [233]%N ++ runes_of_ascii """
+// trailing space 
+// @lengthOf(
+: x 0123456789
+:
+/// triple
+// trailing space 
+stringy[ 255,	0 ,
+    """ ++ [128512]%N ++ runes_of_ascii """ , ""packet""]
+    : _x, ""packet"":
+o, 42 :stringy , ""abc"" :
+    Logon ,
+}  ,}")).
+Eval vm_compute in ("<<<M4551>>>" ++ check (runes_of_ascii "packet 
+        //	t
+  As
+	{ @tag(
+10 )
+@lengthOf(
+
+    chars)
+    zchar 
+{
+	//x
+
+	// `tick` ""quote"" 'q'
+    metadata
+
+    {
+	Header
+`it's`	,
+
+    match
+
+    body
+	as
+	i64_	// trailing space 
+      { ""// no comment""	:
+packetx
+	, 
+}/// triple
+,
+	match repeatCount
+
+as 
+asx{
+
+    255
+    :	Foo  , 3
+
+:int, ""1""
+    :chars 
+, }
+    ,
+    uint32 
+repeatCount  @lengthOf( 
+// c
+BodyLength 
+) 
+``, 
+}
+    , roots, 
+repeat
+    rootA	``
+,
+
+    char
+
+MetaDataX  @lengthOf( crc	) 
+,
+}
+, 
+    // a // b
+  _x
+
+    {
+match	As as
+Foo// @lengthOf(
+	{
+1
+:  
+      // " ++ [27880; 37322]%N ++ runes_of_ascii "
+
+	stringy
+//x
+//	t
+	,
+
+}
+	, }
+	, u8 
+Foo,
+	@calculatedFrom(
+
+    """" )	BodyLength , 
+char[007 ]
+    Z9_@calculatedFrom(
+""CRC32"" 
+) ,
+lengthOf
+,i32  //x
+f32a 
+`{ , }`  ,
+    } ")).
+Eval vm_compute in ("<<<M1223>>>" ++ check (runes_of_ascii "packet
+charz  { // @lengthOf(
+} options
+{
+} packet float	{ metadata Logon ,
+} packet
+    body {
+    @tag(
+    42 // packet A { u8 x, }
+) repeat tag i64_, /// triple
+@lengthOf( string_  )	match chars as
+    Z9_
+    { [65535
+// " ++ [27880; 37322]%N ++ runes_of_ascii "
+//x
+] :
+o // `tick` ""quote"" 'q'
+, [//	t
+""{,}"" ,0123456789
+    , ""packet""
+// packet A { u8 x, }
+//
+, ""abc"" ,255 , """ ++ [233]%N ++ runes_of_ascii "t" ++ [233]%N ++ runes_of_ascii """
+    ,
+// packet A { u8 x, }
+//x
+""x y"" , 3 ]: pack
+    , ""abc""
+:
+matchKey
+    , [ 0123456789 , 1 ] : chars
+    // c
+    1 :int ,  """ ++ [233]%N ++ runes_of_ascii "t" ++ [233]%N ++ runes_of_ascii """ : i64_ , }
+, match Pad as trueish { ""a	b"" : pack
+    , }
+,	@calculatedFrom( """ ++ [28040; 24687]%N ++ runes_of_ascii """
+)
+repeat u128 x
+    ,
+    string A
+,
+lengthOf
+{
+BodyLength T  ,int16 A @lengthOf(
+i8i8
+)//x
+, // " ++ [27880; 37322]%N ++ runes_of_ascii "
+} ,options1 chars  `line1
+line2` ,
+}
+")).
+Eval vm_compute in ("<<<M88>>>" ++ check (runes_of_ascii "// trailing space 
+packet tag {
+    @rightPad
+    // @lengthOf(
+    ( '0' )
+    u128 ,
+@lengthOf(MetaDataX
+    )
+    // c
+    leftPad, // packet A { u8 x, }
+@tag( 1
+    )calculatedFrom
+    @lengthOf( Logon )  , }
+packet string_	{ } packet u128 {char[	0 // packet A { u8 x, }
+]
+chars `say ""hi""`
+,
+int , @leftPad ( '0'
+// @lengthOf(
+//x
+)T { repeat zchar[ 255]
+int
+,zchar  stringy	, }
+    ,repeat zchar{ match leftPad as packetx
+{ [
+""`tick`""
+    ] :
+    lengthOf //x
+,  [  7,""" ++ [128512]%N ++ runes_of_ascii """
+    ,
+00 , ""x y"" , ""packet"" ] :
+    stringy // @lengthOf(
+, [
+42 ,""\n""
+, ""it's"" ,// " ++ [128512]%N ++ runes_of_ascii " emoji
+65535, 1	]
+: msg_type ""packet"" :	a1 ,} , u16 int
+,
+repeat x_y_z float,
+repeat//x
+u64 A `a\` ,
+} , }
+")).
+Eval vm_compute in ("<<<M1042>>>" ++ check (runes_of_ascii "packet Foo { @leftPad
+( '\x00'  )
+    chars {repeat char[]
+tag	`// not a comment` ,repeat u8  T
+,repeat Foo
+BodyLength`it's`,
+zchar
+    { u repeatCount  `" ++ [233]%N ++ runes_of_ascii "` , Header //	t
+, repeat i64 u128 , repeat  charz{ char[] //x
+leftPad,
+    zchar[ // a // b
+42 ] // a // b
+lengthOf
+`{ , }`
+    , } ,} , }
+    , @calculatedFrom( ""it's"" )
+Pad
+{i16 f32a ,
+repeat char[ 10] x `{ , }` ,
+    match metadata
+as
+o {	""" ++ [128512]%N ++ runes_of_ascii """ : metadata , 1
+: rootA , } , } ,
+packetx `{ , }`, } packet
+falsey { }options {MetaDataX // " ++ [128512]%N ++ runes_of_ascii " emoji
+= zchar[ 10
+    //x
+    ] ;  string_
+    = '0'	;
+i8i8=
+// `tick` ""quote"" 'q'
+//x
+true _x  = char[ //	t
+0123456789  ]
+    }
+// a // b
+")).
+Eval vm_compute in ("<<<M1255>>>" ++ check (runes_of_ascii "MetaData MetaDataX { string pack ``  , u32
+    falsey	,
+char[//	t
+65535 ] chars, u64	int ,// c
+}
+options
+{ i8i8= true	;
+float =
+' '
+    ;
+}	packet Foo {// a // b
+@lengthOf( i64_ )
+repeat
+    calculatedFrom{
+    match // a // b
+repeatCount as stringy {
+255 :
+    msg_type  ,65535	: // a // b
+roots ""a\""b""  : repeatCount ,[
+    ""packet"" ,
+""1""]
+:
+    o
+    """ ++ [28040; 24687]%N ++ runes_of_ascii """:zchar ""CRC32"" :A ,}, int64 chars @calculatedFrom( ""a\""b"" )// packet A { u8 x, }
+`say ""hi""`
+, packetx @lengthOf(
+x_y_z ) ,
+    // `tick` ""quote"" 'q'
+    }, stringy @calculatedFrom( """ ++ [28040; 24687]%N ++ runes_of_ascii """) `u8 x,`
+, zchar[	007 ] chars,zchar[ 1
+]f32a `" ++ [28040; 24687; 31867; 22411]%N ++ runes_of_ascii "`
+    , }")).
+Eval vm_compute in ("<<<M279>>>" ++ check (runes_of_ascii "
+MetaData matchKey { i16
+lengthOf, int16
+    asx `it's`
+    ,
+    chars metadata `
+` , char[ 00 ] u128 ,// " ++ [128512]%N ++ runes_of_ascii " emoji
+zchar[ 007 ] falsey
+,  uint64 packetx
+, }
+    packet string_
+    {
+}root
+packet stringy{u64 packetx	@lengthOf( falsey // @lengthOf(
+) `crlf
+line` , falsey options1
+    , repeat char[] calculatedFrom , @rightPad ( '\x00' )
+i64 // c
+charz
+    @lengthOf(
+    x_y_z )
+    `u8 x,`,
+// @lengthOf(
+//x
+@lengthOf( rootA )char[] BodyLength `it's`
+, msg_type@calculatedFrom( // trailing space 
+""packet"") ,
+    // " ++ [27880; 37322]%N ++ runes_of_ascii "
+    lengthOf {zchar[
+65535	]tag
+`
+`
+    , }
+    , } 	 ")).
+Eval vm_compute in ("<<<M1359>>>" ++ check (runes_of_ascii "packet  Foo {
+@calculatedFrom(
+""`tick`"" ) @rightPad
+    ( ' ' )
+/// triple
+//x
+repeat float { repeatCount
+    , /// triple
+zchar[ 0123456789
+    ]rootA
+@calculatedFrom(	""{,}"")
+, match
+// c
+// a // b
+matchKey
+as T { ""\n"" :o
+//
+// `tick` ""quote"" 'q'
+00 : tag [3 // trailing space 
+, 65535
+    // trailing space 
+    ] : body,	}	,
+} ,
+@rightPad
+    // @lengthOf(
+    (
+    ' ' ) @leftPad
+('0' ) string packetx @calculatedFrom(""x y"" )
+    ,  @lengthOf( charz ) string i64_ `crlf
+line`, @rightPad  ('0' ) repeat string calculatedFrom `tab	here`,}
+")).
+Eval vm_compute in ("<<<M1036>>>" ++ check (runes_of_ascii "packet
+    packetx
+{@calculatedFrom( ""packet""
+)
+    // " ++ [27880; 37322]%N ++ runes_of_ascii "
+    @calculatedFrom( ""// no comment"" ) @leftPad /// triple
+(	'0') //	t
+Z9_ T
+, leftPad uint8x ,@tag( 4294967296
+    //
+    ) leftPad //
+{ roots { char options1 , }, match Pad
+    as int{ [
+10 ]
+    :roots//	t
+,
+[	""CRC32"" , ""1"" , 3  ,7
+    ,// " ++ [27880; 37322]%N ++ runes_of_ascii "
+0
+, 0,
+    /// triple
+    ""CRC32"" , 7
+// `tick` ""quote"" 'q'
+// a // b
+]	:Packet
+,	1
+    : tag ,1:
+    matchKey [	42]:
+_x }
+, repeat	tag
+// packet A { u8 x, }
+// " ++ [128512]%N ++ runes_of_ascii " emoji
+{ metadata `" ++ [233]%N ++ runes_of_ascii "`
+,  }, //	t
+u
+    `a\` , } ,  }
+")).
+Eval vm_compute in ("<<<M503>>>" ++ check (runes_of_ascii "options {tag =	false
+    ;  } root packet MetaDataX {repeat a1 { // packet A { u8 x, }
+match options1 as _x { [ ""1""
+    ] :
+    //	t
+    leftPad
+, """" :Z9_ ,  ""a	b"" :leftPad ,
+/// triple
+// " ++ [128512]%N ++ runes_of_ascii " emoji
+},
+} , o , // @lengthOf(
+@lengthOf( x ) calculatedFrom { repeat charz ,char[ 0123456789 ]
+Pad , } , } // a // b
+MetaData roots
+{ }
+packet
+// `tick` ""quote"" 'q'
+//	t
+T {
+match metadata // " ++ [128512]%N ++ runes_of_ascii " emoji
+as BodyLength {
+    0 : Packet ,
+""" ++ [233]%N ++ runes_of_ascii "t" ++ [233]%N ++ runes_of_ascii """
+: f32a, //x
+""// no comment""
+: float ,
+// packet A { u8 x, }
+//	t
+}, }
+")).
+Eval vm_compute in ("<<<M472>>>" ++ check (runes_of_ascii "MetaData a1{ f64
+    int
+    , i32
+o	`two words` ,
+char[3	] lengthOf
+    , zchar[ 7
+] Header , u32 x_y_z , char[3 ] matchKey
+    ,
+    }packet falsey{@lengthOf(
+    i8i8 ) match MetaDataX	as calculatedFrom  { 00
+:
+float  , // " ++ [27880; 37322]%N ++ runes_of_ascii "
+7 // " ++ [128512]%N ++ runes_of_ascii " emoji
+: MetaDataX
+,""" ++ [28040; 24687]%N ++ runes_of_ascii """ :
+    options1 , [ ""a\\"" // packet A { u8 x, }
+]: charz	,
+},match T
+    // trailing space 
+    as Z9_ { [
+    ""it's"" ] : falsey //
+,
+255	:Foo , ""a\\""
+    : Header , }, }
+    MetaData
+    lengthOf { As rootA `doc` , }
+")).
+Eval vm_compute in ("<<<M508>>>" ++ check (runes_of_ascii "packet Pad {
+roots
+    int , @lengthOf(string_	) repeat char[] x, @calculatedFrom( ""CRC32""
+) u16 A	@lengthOf(  string_ ) `line1
+line2` , i32 zchar
+// `tick` ""quote"" 'q'
+// " ++ [27880; 37322]%N ++ runes_of_ascii "
+`say ""hi""`,match roots as i64_ /// triple
+{
+[ 4294967296,  ""abc"", ""x y"",// packet A { u8 x, }
+""a	b"" ,
+""a	b""] : Z9_ [ //x
+""// no comment"" , ""\n"" , 42 ,
+1 , ""\" ++ [233]%N ++ runes_of_ascii """
+,1 , 7
+    , 3
+]:  Header  ,[ //x
+""" ++ [128512]%N ++ runes_of_ascii """ , ""\" ++ [233]%N ++ runes_of_ascii """ ,
+""\" ++ [233]%N ++ runes_of_ascii """
+,00
+    ,
+    """ ++ [233]%N ++ runes_of_ascii "t" ++ [233]%N ++ runes_of_ascii """
+, 1
+, 00 ,	3 ] :	A , }, char[ 10
+] a1
+    ,	}
+
+")).
+Eval vm_compute in ("<<<M4596>>>" ++ check (runes_of_ascii "packet a1 {
+    uint8 As,// `tick` ""quote"" 'q'
+    char[1] chars @lengthOf(msg_type),
+    repeat char[1] x_y_z `two words`,// c
+    @tag(00)
+    int32 i8i8,
+    u64 trueish,
+    // @lengthOf(
+    @lengthOf(body)
+    int16 float @lengthOf(tag),// " ++ [128512]%N ++ runes_of_ascii " emoji
+    x @calculatedFrom(""`tick`""),
+}
+
+MetaData x_y_z {
+    char[10] chars,
+    Z9_ pack `
+    `,
+    string As,//x
+    len int,
+    A Z9_,
+}
+
+options {
+    o = 0123456789;
+    _x = ' ';
+}")).
+Eval vm_compute in ("<<<M180>>>" ++ check (runes_of_ascii "  packet repeatCount {
+@rightPad (' ' )
+char[42]	Header @calculatedFrom( ""a\\"" )
+    ,
+// packet A { u8 x, }
+// packet A { u8 x, }
+@tag( 10 ) i64 options1@calculatedFrom( ""x y"" )
+,  Packet{ i64 lengthOf@calculatedFrom( ""abc""
+)
+    // " ++ [128512]%N ++ runes_of_ascii " emoji
+    , repeat zchar[
+00 ] i64_`u8 x,`
+    , } ,
+    string tag , string
+    o `" ++ [233]%N ++ runes_of_ascii "`
+/// triple
+// " ++ [128512]%N ++ runes_of_ascii " emoji
+, repeat char[  42] a1 `doc`,
+string leftPad @calculatedFrom(""a\\"" ), } 	 ")).
+Eval vm_compute in ("<<<M373>>>" ++ check (runes_of_ascii "options { x =3
+    matchKey= ""a\""b"" // @lengthOf(
+leftPad	= ""packet"" ; T = zchar[ 65535 ]; } MetaData
+    MetaDataX {} MetaData // " ++ [128512]%N ++ runes_of_ascii " emoji
+repeatCount {u8x Pad	, }
+    packet
+T{ @tag( 42  ) repeat MetaDataX `{ , }`
+    // a // b
+    , // @lengthOf(
+float32 x@lengthOf( u8x  )
+`
+`
+    ,int16 matchKey @calculatedFrom( ""\n""	) `two words` , }packet packetx
+{_x
+@calculatedFrom( ""a\""b""
+)`a\`	,
+} // a // b")).
+Eval vm_compute in ("<<<M574>>>" ++ check (runes_of_ascii "packet trueish { @tag( 65535	) //
+char[  7] rootA // " ++ [128512]%N ++ runes_of_ascii " emoji
+`{ , }`,repeat _x// @lengthOf(
+{ _x	T ,
+    },lengthOf @lengthOf( crc	) ,  metadata trueish `tab	here`,	@rightPad
+()	u16 packetx
+`u8 x,` , repeat
+leftPad
+,  @lengthOf( u8x
+) repeat
+int32 MetaDataX `a\` , //	t
+@tag(42  )
+    repeat
+lengthOf, @lengthOf( x )@calculatedFrom(""1""
+) zchar[ 65535
+    ] lengthOf`u8 x,` ,
+    }")).
+Eval vm_compute in ("<<<M4503>>>" ++ check (runes_of_ascii "// " ++ [128512]%N ++ runes_of_ascii " emoji
+
+packet 
+u
+	{ int  `two words`,
+	}
+packet	Packet
+
+{  repeat
+
+    zchar
+
+    Foo  // @lengthOf(
+  , }  packet f32a	// c
+  {
+    uint32
+
+Packet`
+`
+
+    ,
+@lengthOf(  msg_type
+)
+    @calculatedFrom(
+""it's""	)  repeat repeatCount
+
+    {
+	repeat
+
+    zchar[
+
+255]  u8x
+	,
+
+repeat
+MetaDataX 	 // c
+	`" ++ [28040; 24687; 31867; 22411]%N ++ runes_of_ascii "`  , int64
+Pad	`tab	here`
+,
+
+    } ,
+
+    }
+
+")).
+Eval vm_compute in ("<<<M525>>>" ++ check (runes_of_ascii "packet pack// @lengthOf(
+{ repeat
+As// " ++ [27880; 37322]%N ++ runes_of_ascii "
+{ char[65535  ] u128 // a // b
+@lengthOf( a1 )
+`tab	here` ,i8 rootA `crlf
+line`
+,
+    match //x
+i8i8 as
+    zchar { [""1""]
+: tag ,""a	b"":
+u8x
+    ""a\""b""
+: calculatedFrom, } , match leftPad //	t
+as
+    Pad
+{
+// `tick` ""quote"" 'q'
+// trailing space 
+65535 : options1
+},}	,u32 crc
+    , zchar[ 00]
+roots, }
+
+")).
+Eval vm_compute in ("<<<M4030>>>" ++ check (runes_of_ascii "root  packet
+
+    roots
+{
+
+    @tag( 7 // `tick` ""quote"" 'q'
+)int64
+
+    A
+
+,	} 
+
+//
+  //
+    	packet u128 
+// a // b
+	{  msg_type
+Pad
+`line1
+line2`,
+} 
+options{ crc  =""\" ++ [233]%N ++ runes_of_ascii """
+    ;}	root packet
+
+_x
+
+{ @lengthOf(
+pack 	 // " ++ [27880; 37322]%N ++ runes_of_ascii "
+  )	i16
+MetaDataX, calculatedFrom{ packetx @lengthOf(
+
+BodyLength)
+
+    `{ , }` ,
+}	// a // b
+  , 
+} ")).
+Eval vm_compute in ("<<<M1221>>>" ++ check (runes_of_ascii "// trailing space 
+packet // " ++ [27880; 37322]%N ++ runes_of_ascii "
+pack {
+    @lengthOf( Pad )	char[]msg_type,
+}	options
+    {
+// " ++ [128512]%N ++ runes_of_ascii " emoji
+// " ++ [128512]%N ++ runes_of_ascii " emoji
+chars =int32 ;//
+chars
+    =	""CRC32"" }packet f32a
+{
+    @calculatedFrom( ""a\""b""
+    ) zchar
+    @lengthOf( o ) ,int32	o
+    , repeat
+int64 // packet A { u8 x, }
+zchar
+    // " ++ [128512]%N ++ runes_of_ascii " emoji
+    `" ++ [28040; 24687; 31867; 22411]%N ++ runes_of_ascii "`,} /// triple")).
+Eval vm_compute in ("<<<M338>>>" ++ check (runes_of_ascii "root packet // `tick` ""quote"" 'q'
+roots{@rightPad (// trailing space 
+'0'
+)char[255 ] T`line1
+line2`
+,}packet msg_type {	Logon { f64 x_y_z`` ,
+    },	i8 pack @lengthOf( stringy )
+, @tag(
+    4294967296)char[] msg_type ,
+stringy // a // b
+{ match x as
+    roots { 1 :
+options1 ,
+    ""it's"" : BodyLength , }, } , }
+")).
+Eval vm_compute in ("<<<M1981>>>" ++ check (runes_of_ascii "MetaData
+    u { }  options {
+// c
+// @lengthOf(
+float = int8 ;rootA =false ; As =	int16 // `tick` ""quote"" 'q'
+repeatCount
+    // trailing space 
+    =
+    int16
+; u8x =
+    //	t
+    '\x00' ; } } options	{
+    repeatCount
+= 0
+u128
+    //
+    = false ; i64_
+// trailing space 
+// `tick` ""quote"" 'q'
+= '0' ; //	t
+}
+")).
+Eval vm_compute in ("<<<M752>>>" ++ check (runes_of_ascii "packet o {@leftPad () repeat pack { zchar[ 0123456789 ] o`say ""hi""`  ,
+} ,  }
+    packet T { match T as
+pack
+{65535 :
+// " ++ [27880; 37322]%N ++ runes_of_ascii "
+//x
+roots
+    // " ++ [27880; 37322]%N ++ runes_of_ascii "
+    ,} , matchKey Logon	, match f32a  as
+    x { 3 :
+    i8i8  ,	1 : a1,
+    // " ++ [128512]%N ++ runes_of_ascii " emoji
+    """ ++ [128512]%N ++ runes_of_ascii """
+:	o, 7 :
+BodyLength // c
+,	}
+, repeat i32 u128 , // trailing space 
+}
+")).
+Eval vm_compute in ("<<<M1982>>>" ++ check (runes_of_ascii "MetaData
+    u { }  options {
+// c
+// @lengthOf(
+float = int8 ;rootA =false ; As =	int16 // `tick` ""quote"" 'q'
+repeatCount
+    // trailing space 
+    =
+    int16
+; u8x =
+    //	t
+    '\x00' ; options }	{
+    repeatCount
+= 0
+u128
+    //
+    = false ; i64_
+// trailing space 
+// `tick` ""quote"" 'q'
+= '0' ; //	t
+}
+")).
+Eval vm_compute in ("<<<M1975>>>" ++ check (runes_of_ascii "MetaData
+    u { }  options {
+// c
+// @lengthOf(
+float = int8 ;rootA =false ; As =	int16 // `tick` ""quote"" 'q'
+repeatCount
+    // trailing space 
+    =
+    int16
+; u8x =
+    //	t
+    '\x00'  } options	{
+    repeatCount
+= 0
+u128
+    //
+    = false ; i64_
+// trailing space 
+// `tick` ""quote"" 'q'
+= '0' ; //	t
+}
+")).
+Eval vm_compute in ("<<<M1935>>>" ++ check (runes_of_ascii "MetaData
+    u { }  options {
+// c
+// @lengthOf(
+float = int8 ;rootA =false ; As =	 // `tick` ""quote"" 'q'
+repeatCount
+    // trailing space 
+    =
+    int16
+; u8x =
+    //	t
+    '\x00' ; } options	{
+    repeatCount
+= 0
+u128
+    //
+    = false ; i64_
+// trailing space 
+// `tick` ""quote"" 'q'
+= '0' ; //	t
+}
+")).
+Eval vm_compute in ("<<<M1292>>>" ++ check (runes_of_ascii "//	t
+packet crc { } MetaData len  { stringy	body `line1
+line2`	, u16 crc , //
+zchar[007 ] Z9_ , Header T,
+} packet stringy //	t
+{	@lengthOf( u8x )match A as
+// @lengthOf(
+/// triple
+BodyLength
+    {
+""{,}"" : o // " ++ [128512]%N ++ runes_of_ascii " emoji
+} ,repeat
+    //
+    zchar[
+255 ]packetx , A `" ++ [233]%N ++ runes_of_ascii "` , BodyLength	msg_type
+    ,	}
+")).
+Eval vm_compute in ("<<<M3857>>>" ++ check (runes_of_ascii "  packet 
+	//	t
+    	// trailing space 
+    _x
+	{ 
+  // packet A { u8 x, }
+      // c
+    char[
+
+3 ]u8x
+    @lengthOf(  u8x )
+, @calculatedFrom( """ ++ [128512]%N ++ runes_of_ascii """// @lengthOf(
+	  )i16  Foo 
+@lengthOf(
+string_)
+
+`doc` 
+,  i64 metadata	, @lengthOf(string_
+
+    )
+    i8  // c
+      u`line1
+line2`  , }
+")).
+Eval vm_compute in ("<<<M4324>>>" ++ check (runes_of_ascii "MetaData
+rootA
+{
+
+} packet 
+BodyLength 
+{  repeat
+
+    int32  falsey
+`a\`	,i64
+
+    rootA
+
+    @lengthOf(
+falsey
+
+    )
+    ,
+}
+    root
+	packet x
+{ u64
+
+A
+
+    `" ++ [233]%N ++ runes_of_ascii "` ,
+
+    }
+	packet 	 // @lengthOf(
+BodyLength
+
+{  } 
+        //x
+    options
+	{ A =
+
+    ""\n"" ;
+}
+")).
+Eval vm_compute in ("<<<M292>>>" ++ check (runes_of_ascii "options { asx = ""{,}"" } packet len{repeat	float
+    As, char[] Packet ,
+i8 body @lengthOf( T
+) //
+,
+}// @lengthOf(
+packet
+    Pad {uint32
+u8x // packet A { u8 x, }
+, /// triple
+@tag( 4294967296 ) @tag(65535)
+@rightPad(
+    )rootA
+    trueish `{ , }`
+    ,
+    } 	 ")).
+Eval vm_compute in ("<<<M1573>>>" ++ check (runes_of_ascii "packet
+//	t
+// trailing space 
+_x {
+// packet A { u8 x, }
+// c
+char[
+3
+    ] u8x @lengthOf(
+u8x ) , @calculatedFrom(""" ++ [128512]%N ++ runes_of_ascii """ // @lengthOf(
+)
+i16	Foo
+@lengthOf(	string_ string_
+    )`doc`	, repeat	i64 metadata , @lengthOf( string_
+) i8 // c
+u  `line1
+line2`	,
+}
+")).
+Eval vm_compute in ("<<<M562>>>" ++ check (runes_of_ascii "root packet a1
+{ repeat
+    /// triple
+    zchar[
+    42 ] x_y_z
+,@tag( 65535 )@tag(
+    // c
+    7
+    )// " ++ [128512]%N ++ runes_of_ascii " emoji
+@lengthOf( // c
+A	)	string
+//
+// " ++ [27880; 37322]%N ++ runes_of_ascii "
+calculatedFrom ,
+    string
+    uint8x
+    ,
+    } MetaData
+    // trailing space 
+    MetaDataX
+{
+}")).
+Eval vm_compute in ("<<<M67>>>" ++ check (runes_of_ascii "packet lengthOf {// c
+} root packet
+asx { u32 Z9_
+`say ""hi""` ,
+@tag( 007
+    )match
+    u8x as Logon {
+    [ ""abc""	]: tag,0123456789 : tag,  """ ++ [233]%N ++ runes_of_ascii "t" ++ [233]%N ++ runes_of_ascii """ : int
+    ,
+""`tick`"" : options1 , } ,@leftPad
+( )  repeat
+string  tag
+    ,falsey `// not a comment` ,
+}
+")).
+Eval vm_compute in ("<<<M1549>>>" ++ check (runes_of_ascii "packet
+//	t
+// trailing space 
+_x {
+// packet A { u8 x, }
+// c
+char[
+3
+    ] u8x @lengthOf(
+u8x ) , @calculatedFrom() // @lengthOf(
+""" ++ [128512]%N ++ runes_of_ascii """
+i16	Foo
+@lengthOf(	string_
+    )`doc`	, repeat	i64 metadata , @lengthOf( string_
+) i8 // c
+u  `line1
+line2`	,
+}
+")).
+Eval vm_compute in ("<<<M1537>>>" ++ check (runes_of_ascii "packet
+//	t
+// trailing space 
+_x {
+// packet A { u8 x, }
+// c
+char[
+3
+    ] u8x @lengthOf(
+u8x )  @calculatedFrom(""" ++ [128512]%N ++ runes_of_ascii """ // @lengthOf(
+)
+i16	Foo
+@lengthOf(	string_
+    )`doc`	, repeat	i64 metadata , @lengthOf( string_
+) i8 // c
+u  `line1
+line2`	,
+}
+")).
+Eval vm_compute in ("<<<M1582>>>" ++ check (runes_of_ascii "packet
+//	t
+// trailing space 
+_x {
+// packet A { u8 x, }
+// c
+char[
+3
+    ] u8x @lengthOf(
+u8x ) , @calculatedFrom(""" ++ [128512]%N ++ runes_of_ascii """ // @lengthOf(
+)
+i16	Foo
+@lengthOf(	string_
+    )	, repeat	i64 metadata , @lengthOf( string_
+) i8 // c
+u  `line1
+line2`	,
+}
+")).
+Eval vm_compute in ("<<<M4186>>>" ++ check (runes_of_ascii "MetaData u {
 }
 
 options {
     // c
-    float = 007
+    // @lengthOf(
+    float = int8;
+    rootA = false;
+    As = int16// `tick` ""quote"" 'q'
+    repeatCount = int16;
+    u8x = '\x00'
 }
 
-root packet metadata {
+options {
+    repeatCount = 0
+    u128 = false;
+    i64_ = '0';//	t
 }")).
-Eval vm_compute in ("<<<M174>>>" ++ check (runes_of_ascii "root
-packet charz {// a // b
-@rightPad
+Eval vm_compute in ("<<<M2019>>>" ++ check (runes_of_ascii "MetaData
+    u { }  options {
+// c
+// @lengthOf(
+float = int8 ;rootA =false ; As =	int16 // `tick` ""quote"" 'q'
+repeatCount
+    // trailing space 
+    =
+    int16
+; u8x =
     //	t
-    (
-) @lengthOf(
-    Pad ) @rightPad ( ' '
-) MetaDataX @lengthOf( BodyLength
-) `" ++ [28040; 24687; 31867; 22411]%N ++ runes_of_ascii "`
-,
-    repeatCount /// triple
-A
+    '\x00' ; } options	{
+    repeatCount
+= 0
+u128")).
+Eval vm_compute in ("<<<M1332>>>" ++ check (runes_of_ascii "// packet A { u8 x, }
+MetaData chars	{  Header  u128  ,
+BodyLength
+u8x//	t
+`two words` // " ++ [128512]%N ++ runes_of_ascii " emoji
+, uint8x
+Header// packet A { u8 x, }
+`say ""hi""` ,
+rootA //x
+A // c
+`{ , }` , char[ 00 ]	leftPad
+, i64 // a // b
+As , }
+")).
+Eval vm_compute in ("<<<M3264>>>" ++ check (runes_of_ascii "// top
+MetaData // c0
+float // c1
+{ // c2
+float64 // c3
+charz // c4
 `
-`,	@tag(
-    4294967296) // trailing space 
-metadata u8x ,
-    @calculatedFrom( ""packet"" ) repeat Pad // @lengthOf(
-`say ""hi""`
-,  } root packet// trailing space 
-rootA {// " ++ [27880; 37322]%N ++ runes_of_ascii "
-rootA	{ string trueish ,
-}
-    ,
-} MetaData
-lengthOf {
-    } packet _x { repeat msg_type { char[ 65535 ]
-crc ,	lengthOf
+` // c5
+, // c6
+} // c7
+root // c8
+packet // c9
+chars // c10
+{ // c11
+@rightPad // c12
+( // c13
+'0' // c14
+) // c15
+Foo // c16
+, // c17
+} // c18
+")).
+Eval vm_compute in ("<<<M4562>>>" ++ check (runes_of_ascii "
+options
+
     {
-    Packet ,
-    // c
-    string_
-    @calculatedFrom(""a\""b""),
-f32 rootA//
-,
-}	,
-// " ++ [27880; 37322]%N ++ runes_of_ascii "
-// `tick` ""quote"" 'q'
-} ,i16 int  , @lengthOf( matchKey) //	t
-i8i8 int `two words` ,
-// packet A { u8 x, }
-// @lengthOf(
-repeat Logon{
-repeat
-    //	t
-    uint8	f32a ,
-    a1
-    //
-    { repeat char[1
-] Foo , }  , uint8x
-// @lengthOf(
-// packet A { u8 x, }
-{ char[ 4294967296 ]
-T `{ , }`
-, u32
-    repeatCount `" ++ [28040; 24687; 31867; 22411]%N ++ runes_of_ascii "`
-    // c
-    ,} , }
-    ,
-repeat MetaDataX
-, char[ 4294967296 ] i8i8//
-@lengthOf( _x ) ,}
-packet falsey {
-    tag
-{ char[ // " ++ [27880; 37322]%N ++ runes_of_ascii "
-00
-    // `tick` ""quote"" 'q'
-    ] int@lengthOf( u128
-    ) ,
-}
-,roots body ,u16 stringy
-// trailing space 
-// @lengthOf(
-@lengthOf( Pad ) `line1
-line2` ,
-stringy
-@lengthOf(  chars ) ,uint8 lengthOf
-`" ++ [233]%N ++ runes_of_ascii "` ,
-    // " ++ [128512]%N ++ runes_of_ascii " emoji
-    }")).
-Eval vm_compute in ("<<<M4017>>>" ++ check (runes_of_ascii "root packet a1 {
-    uint64 body,
-    @lengthOf(rootA)
-    char[1] zchar,
-    BodyLength,
-    string_,
-    char[] float @lengthOf(lengthOf),//
-    uint32 asx `" ++ [28040; 24687; 31867; 22411]%N ++ runes_of_ascii "`,
-    char[] uint8x @calculatedFrom(""abc""),
-    @tag(255)
-    @calculatedFrom(""a\\"")
-    zchar[3] options1,
-}
+	}
 
-packet charz {
-    @rightPad(' ')
-    matchKey @lengthOf(u) `u8 x,`,
-    @lengthOf(len)
-    @lengthOf(falsey)
-    u @calculatedFrom(""a\\""),
-    match i8i8 as Packet {
-        [""a	b""] : roots,
-        ""abc"" : trueish,
-        [65535, ""a\\""] : asx,
-        0123456789 : a1,
-        1 : i64_,
-    },
-    match len as Header {
-        [
-            0, 0123456789, 7, 0, ""\n"",
-            ""a\\""
-        ] : o,
-        ""x y"" : crc,
-        [3, ""\" ++ [233]%N ++ runes_of_ascii """] : lengthOf,
-        [10, ""x y""] : u8x,
-        1 : Packet,
-        007 : Z9_,
-    },
-    @calculatedFrom(""packet"")
-    @tag(65535)
-    repeat Pad rootA,
-    @tag(4294967296)
-    @lengthOf(stringy)
-    crc @lengthOf(uint8x) `" ++ [28040; 24687; 31867; 22411]%N ++ runes_of_ascii "`,
-}
-
-MetaData u8x {
-    len calculatedFrom,
-    u16 asx,
-}
-
-MetaData Logon {
-    u16 chars ``,
-    A matchKey `a\`,
-    char[007] Header,
-    len uint8x,
-    A Packet `line1
-        line2`,
-    string trueish `u8 x,`,
-}")).
-Eval vm_compute in ("<<<M4121>>>" ++ check (runes_of_ascii "  // @lengthOf(
-    	packet
-
-options1{
-
-    @lengthOf(i8i8
-
-) i64_
-
-    int`{ , }`
-
-,
-	char[] 
-int
-    ,zchar[
-    00
-//	t
-    // packet A { u8 x, }
-  ]	len
-	, } packet
-u128
-{
-
-@tag( 3  //	t
-  	) @calculatedFrom(
-    //
-	  // @lengthOf(
-
-""// no comment"")  options1 	 // packet A { u8 x, }
-
-{int16 	 //x
-    calculatedFrom
-    @calculatedFrom(
-
-""" ++ [28040; 24687]%N ++ runes_of_ascii """) , chars  @lengthOf(
-
-calculatedFrom  )
-    ,
-
-crc {  o @calculatedFrom(""" ++ [233]%N ++ runes_of_ascii "t" ++ [233]%N ++ runes_of_ascii """
-
-    )  , float
-
-    u8x
-,  repeat metadata
-    uint8x
-, 
-} ,} 
-, float64 options1
-
-    ,  @leftPad (
-    )
-    @lengthOf(
+MetaData
+	len
+	{crc
 
 Foo
-)
-	@calculatedFrom(
-	""packet"" )
 
-//	t
-      // c
-
-char[ 
-1// c
-	]
-	i8i8@calculatedFrom(
-""abc""	)
-`{ , }`
-	, @leftPad  (
-    '0'
-	) 
-T	{	int32
-i8i8`u8 x,`
-	    //
-  ,  match  Z9_
-    as
-    string_
-    {	[7,  10 
-,65535 ,0
-,	42, 255 ,	""\" ++ [233]%N ++ runes_of_ascii """ 
-  // packet A { u8 x, }
-	, ""`tick`"" ] 
-:
-	Foo
-,""" ++ [233]%N ++ runes_of_ascii "t" ++ [233]%N ++ runes_of_ascii """ :
-
-u8x
-
-[
-255
-	, """"  ,
-0 , 
-"""" ,
-    """ ++ [233]%N ++ runes_of_ascii "t" ++ [233]%N ++ runes_of_ascii """ , 255
-
-    , 4294967296 ,00
-
-    ]
-
-:
-i64_	,
-10
-
-:
-    Foo }
-	,
-    // trailing space 
-		pack
-    @calculatedFrom(
-	""`tick`"" )
-
-    ,
-
-}
-	,
-    a1 	 //	t
-	`say ""hi""`
-
-    ,  }")).
-Eval vm_compute in ("<<<M153>>>" ++ check (runes_of_ascii "options
-// packet A { u8 x, }
-/// triple
-{	}MetaData	zchar// @lengthOf(
-{
-    A i64_
-`crlf
-line` , char[]string_ `
-` , Packet
-stringy `a\` , // `tick` ""quote"" 'q'
-char[ 1] i8i8 // @lengthOf(
-,float32
-options1 `{ , }` ,} packet
-    a1{@lengthOf( o ) //x
-o { calculatedFrom @calculatedFrom(
-    //x
-    ""a\\""
-) , } , @lengthOf(
-a1) repeat i8i8
-    stringy ,int8	pack , @lengthOf( u8x
-    ) string
-packetx @calculatedFrom( ""`tick`"" ) `` , @lengthOf( Header ) @tag( 0123456789 ) @calculatedFrom(
-""CRC32"" ) repeat BodyLength `two words` , @lengthOf( T)  zchar[ 1//
-] repeatCount@lengthOf( o	) ,
-    match // " ++ [128512]%N ++ runes_of_ascii " emoji
-As as options1 { ""1"":
-    o, ""a\\"": crc
-,[ 0123456789, ""a	b"" // `tick` ""quote"" 'q'
-, """ ++ [128512]%N ++ runes_of_ascii """ ,	65535
-, """ ++ [128512]%N ++ runes_of_ascii """
-    // `tick` ""quote"" 'q'
-    ,  ""1""	,
-00 ] : x , [ ""abc""	,
-""\n""
-, 4294967296 ,
-10 ,
-    //x
-    0123456789
-,	42 , """ ++ [128512]%N ++ runes_of_ascii """, 3 ] :
-    // " ++ [128512]%N ++ runes_of_ascii " emoji
-    msg_type } , match
-u8x as
-lengthOf
-    { [""x y"" , ""{,}""// a // b
-] :	asx // `tick` ""quote"" 'q'
-4294967296  : chars,
-    ""CRC32"" : a1 ""a	b"" :metadata ,  7 : zchar  , }
-, }")).
-Eval vm_compute in ("<<<M3896>>>" ++ check (runes_of_ascii "MetaData A 
-  //
-// " ++ [128512]%N ++ runes_of_ascii " emoji
-	  {
-
-    u8x	A	/// triple
-
-`` ,
-int16 
-roots	`// not a comment`
-
-    ,	u128 u
-	,
-	int options1
-    `" ++ [28040; 24687; 31867; 22411]%N ++ runes_of_ascii "`,
-
-    i16
-
-repeatCount,i8 
-roots , // `tick` ""quote"" 'q'
-	} root packet	matchKey{ lengthOf /// triple
-{
-
-    i64_
-
-@lengthOf(
-	msg_type  ) ,  } ,}
-options
-    {
-
-    x = char[]
-}  // trailing space 
-
-packet As
-{ i64_`crlf
-line`,	// c
-      rootA 
-Z9_
-    ,
-
-string 
-Pad
-
-    @calculatedFrom(""// no comment""
-    )
-    `say ""hi""` , @rightPad
-('\x00') @calculatedFrom(""{,}"" )// `tick` ""quote"" 'q'
-  @calculatedFrom(
-""CRC32"" ) falsey
-`doc`
-, match
-Logon as 
-tag 
-{  3  :	f32a ,
-
-    ""abc"": o
-,	255 :A
-""abc""  : leftPad
-	, },
-	@calculatedFrom(
-	""" ++ [233]%N ++ runes_of_ascii "t" ++ [233]%N ++ runes_of_ascii """
-	) repeat  u32 _x `{ , }` ,
-
-repeat stringy
-`a\`	,
-        // @lengthOf(
-  // " ++ [128512]%N ++ runes_of_ascii " emoji
-	  len// packet A { u8 x, }
-	  @lengthOf(  Header
-	)
-//
-  // " ++ [27880; 37322]%N ++ runes_of_ascii "
-`" ++ [28040; 24687; 31867; 22411]%N ++ runes_of_ascii "`
-,
-
-    i32
-
-len@lengthOf(
-
-repeatCount )
-
-    `line1
-line2`,  @tag( 
-
-//x
-    // a // b
-42 	 //x
-
-)BodyLength , 
-} ")).
-Eval vm_compute in ("<<<M3885>>>" ++ check (runes_of_ascii "//x
-packet u8x {
-    @lengthOf(As)
-    repeat char[4294967296] int `{ , }`,
-    repeat int8 len `two words`,
-}
-
-root packet tag {
-}
-
-root packet rootA {
-    o @calculatedFrom(""""),
-    leftPad i64_ `it's`,// " ++ [27880; 37322]%N ++ runes_of_ascii "
-    @tag(7)
-    float,
-    int32 x_y_z,
-    repeat roots {
-        zchar[10] a1,
-        f32a options1 `crlf
-        line`,
-        match _x as zchar {
-            1 : u8x,
-            ""// no comment"" : float,
-            [4294967296, 10, 1, """ ++ [233]%N ++ runes_of_ascii "t" ++ [233]%N ++ runes_of_ascii """, """ ++ [28040; 24687]%N ++ runes_of_ascii """] : u128,
-            [42, ""\" ++ [233]%N ++ runes_of_ascii """] : stringy,
-            [1, ""\n""] : falsey,
-        },
-        string charz @calculatedFrom(""""),
-    },
-    char[] options1 `
-    `,
-    //	t
-    /// triple
-    u8x {
-        repeat msg_type matchKey `u8 x,`,
-    },
-    A @lengthOf(pack),
-    i64 stringy,
-}
-
-packet i8i8 {
-    i64_ u128,
-    @lengthOf(u8x)
-    repeat float64 f32a,
-    @calculatedFrom(""`tick`"")
-    pack `" ++ [233]%N ++ runes_of_ascii "`,
-    uint64 Z9_ @calculatedFrom("""") `tab	here`,
-}")).
-Eval vm_compute in ("<<<M4550>>>" ++ check (runes_of_ascii "root
-
-packet
-
-calculatedFrom
-
-    {  /// triple
-    @calculatedFrom( // packet A { u8 x, }
-
-""{,}"")	match asx
-	as i8i8 {""CRC32""
-
-:	f32a,
-""// no comment""  :
-    Packet, 	 // trailing space 
-},
-    repeat zchar[
-
-7 
-]
-
-len , //
-
-	match	options1 	 // c
-
-as
-	string_  {
+, char[] x_y_z`// not a comment`
+, }
+options{
+a1  =
 """ ++ [128512]%N ++ runes_of_ascii """
-    :metadata
-,	[
 
-    ""\n"" 
-// `tick` ""quote"" 'q'
-	//
-
-,
-""CRC32""
-, ""a\""b""]
-
-:
-	    // " ++ [128512]%N ++ runes_of_ascii " emoji
-  // " ++ [128512]%N ++ runes_of_ascii " emoji
-    x_y_z // " ++ [27880; 37322]%N ++ runes_of_ascii "
-	,42
-:
-string_
-},@lengthOf(
-
-msg_type
-	)string Pad  
-  // trailing space 
-      // @lengthOf(
-
-	`tab	here`	,	f32a ,	match
-    Logon
-
-    as  stringy {007 
-: 
-metadata	,
-	[ 255
-, 10 
-]
-:  matchKey
-,
-
-    [10,""1""
-
-    ,	""`tick`"" ,0  ]
-    :roots,255
-
-// @lengthOf(
-// c
-
-:
-
-o ,
-[ 1
-
-    ]:
-
-    msg_type  ,0123456789
-:falsey }
-    ,  }
-root
-    packet  crc 
-{
-}
-
-options { falsey =
-
-false
-    ;  len
-
-=	""\" ++ [233]%N ++ runes_of_ascii """ 	 // " ++ [27880; 37322]%N ++ runes_of_ascii "
-      ;A  = ""a	b""	lengthOf	=  ""1""
-} ")).
-Eval vm_compute in ("<<<M759>>>" ++ check (runes_of_ascii "packet x {
-    u16
-    msg_type @lengthOf(BodyLength ) ,// trailing space 
-@calculatedFrom(  """ ++ [28040; 24687]%N ++ runes_of_ascii """ ) repeat Header { char[
-    0123456789 ] // " ++ [128512]%N ++ runes_of_ascii " emoji
-repeatCount ,zchar[ 7] i64_
-@calculatedFrom(
-""" ++ [28040; 24687]%N ++ runes_of_ascii """ ) , repeat T zchar`tab	here`,
-    } , uint8
-    body`doc`, repeat char[]i8i8 ,
-uint32 f32a@calculatedFrom(
-""`tick`""
-// packet A { u8 x, }
-// packet A { u8 x, }
-) ,
-@rightPad ( ' ' ) match
-rootA as matchKey{
-42:
-lengthOf
-    // `tick` ""quote"" 'q'
-    ""// no comment"" : Z9_ , [""a\\"" , /// triple
-1]:
-    // @lengthOf(
-    len
-, 10
-:trueish,
-    }
-    ,
-    f64 Logon
-@lengthOf( T ) //
-`crlf
-line` , match
-/// triple
-// @lengthOf(
-float	as i8i8 { ""\n"": i64_ , } ,
-@lengthOf( u8x)// trailing space 
-@leftPad
-('\x00'
-    ) char[  007] body	`it's` , @leftPad (
-'0' )
-    string crc @calculatedFrom( ""a\\"" ) `" ++ [28040; 24687; 31867; 22411]%N ++ runes_of_ascii "`  , }
-")).
-Eval vm_compute in ("<<<M1296>>>" ++ check (runes_of_ascii "packet
-    body { @tag(255 ) int @lengthOf( matchKey
-    ) `tab	here` ,
-}
-    packet Z9_ { @lengthOf( As
-)
-    repeat _x
-lengthOf ,	@tag( 0123456789
-    ) repeat
-uint8x ,int64  stringy@calculatedFrom(
-    ""{,}"" )`crlf
-line`
-, //x
-@lengthOf(	i8i8)@tag( 4294967296	) @rightPad ( // c
-'0' // `tick` ""quote"" 'q'
-) char[
-    // c
-    3]
-int , } packet roots { } root
-packet body { match f32a as  u8x{//x
-""\" ++ [233]%N ++ runes_of_ascii """ //x
-:	chars, } , @tag(255 )
-@tag( 00) trueish
-Header, @tag( //x
-1)
-match
-A
-    as falsey { [""a\""b"" ]: i64_ ,// trailing space 
-[ 7 ,""packet"" , ""{,}""
-, 4294967296 , 007] :u128 , 0
-:
-string_ , 007 : x
-    , 1 :As ,
-    }
-    , @lengthOf(
-    options1 ) repeat u16  Header
-`` ,string trueish
-, // " ++ [128512]%N ++ runes_of_ascii " emoji
-@lengthOf( len ) x repeatCount
-    `crlf
-line` ,
-    }
-")).
-Eval vm_compute in ("<<<M870>>>" ++ check (runes_of_ascii "packet As { //	t
-char[ 4294967296
-    ] o
-    @calculatedFrom(
-    ""// no comment"" ) , @calculatedFrom( ""\" ++ [233]%N ++ runes_of_ascii """
-)Foo{ pack@lengthOf( uint8x  ) , } ,@calculatedFrom( ""it's"") @lengthOf( Pad ) //
-@calculatedFrom( """ ++ [128512]%N ++ runes_of_ascii """ )
-    repeat
-zchar[ 42 ]BodyLength ,
-match body  as
-T
-{
-    255 //x
-: msg_type
-// @lengthOf(
-// @lengthOf(
-, 4294967296 : metadata
-    , [ ""{,}"" , 4294967296
-] :f32a
-    7  : options1
-,
-    10 :
-    float , [
-    ""abc"" ,  ""abc""
-, 0
-    //x
-    ] : u ,
-}  , repeat
-    //	t
-    int64 o `
-`  , i8i8
-    `// not a comment` , } packet x { }  packet falsey	{
-    repeat char
-    Logon	, }packet
-    _x
-    {
-@calculatedFrom( ""a\""b"")@tag( 7
-// trailing space 
-// a // b
-) @calculatedFrom( ""a\\"" ) metadata
-    // " ++ [128512]%N ++ runes_of_ascii " emoji
-    , }
-")).
-Eval vm_compute in ("<<<M4169>>>" ++ check (runes_of_ascii "
-options
-    { 
-}	root packet 
-a1 {@tag( 00)
-
-    Logon , @calculatedFrom(""{,}""
-
-    )
-    repeatCount
-    // a // b
-// packet A { u8 x, }
-	  {
-repeat 
-float i64_,match u8x 	 // trailing space 
-	as leftPad 
-
-    // `tick` ""quote"" 'q'
-
-  { 3
-    :
-	u128 ,
-    1: i8i8
-//	t
-  // " ++ [128512]%N ++ runes_of_ascii " emoji
-
-,
-
-42
-	:
-	u128
-,
-
-""" ++ [233]%N ++ runes_of_ascii "t" ++ [233]%N ++ runes_of_ascii """
-:  msg_type
-
-    ,
-
-[
-
-    1 , 
-42]
-:
-
-A
-
-,  }
-	, repeat
-i64
-	metadata
-
-    ,
-
-},
-	match
-len 
-as  Z9_ 
-{
-	255 
-:
-
-o
-    ,
+    ;
+    _x =
 	0123456789
-	:	Pad	,  //
-[7,  ""{,}""  , 	 // trailing space 
-	  ""abc""
+    _x =
 
-    , 
-007 
-] 
-: chars
+    true u8x 
+= ""packet""	trueish
 
-,
-	3: // packet A { u8 x, }
-    	packetx 00
-:  //
-o  , 	 /// triple
-
-  }
-	,
-
-zchar[ 0123456789] 
-i64_
-@lengthOf(
-chars ),float32	trueish  `" ++ [28040; 24687; 31867; 22411]%N ++ runes_of_ascii "` ,}")).
-Eval vm_compute in ("<<<M3922>>>" ++ check (runes_of_ascii "root packet A {
-    @tag(42)
-    match Logon as rootA {
-        0123456789 : int,
-    },
-    repeat char[] uint8x `crlf
-        line`,
-    int {
-        // `tick` ""quote"" 'q'
-        //
-        repeat f64 Packet,
-        uint8x @calculatedFrom(""1""),
-        string x `it's`,
-    },
-    @lengthOf(Foo)
-    @calculatedFrom(""a	b"")
-    @lengthOf(body)
-    metadata {
-        match pack as matchKey {
-            ""x y"" : falsey,
-            ""it's"" : Header,
-        },
-        body {
-            char[] len,/// triple
-        },
-    },
-    char[0123456789] T @calculatedFrom(""`tick`""),
-}
-
-options {
-    len = ' '
-}
-
-MetaData As {
-    f64 As,
-    char[0123456789] x,
-}")).
-Eval vm_compute in ("<<<M299>>>" ++ check (runes_of_ascii "packet
-As {
-char[ 42	]//
-chars
-@calculatedFrom(
-""a\""b"" ) `it's` ,f32a falsey // trailing space 
-`// not a comment` , // " ++ [128512]%N ++ runes_of_ascii " emoji
-string
-trueish
-`" ++ [28040; 24687; 31867; 22411]%N ++ runes_of_ascii "` ,
-@lengthOf(  metadata )@tag(65535 ) @calculatedFrom( ""`tick`"" ) repeat Logon { x_y_z@lengthOf(lengthOf ),uint32  u
-, i64_ @calculatedFrom( ""CRC32""
-    )
-`a\` , asx @calculatedFrom( """" ) `u8 x,` ,	} ,
-u16
-    _x `` , repeat string_
-//
-// `tick` ""quote"" 'q'
-, options1 f32a , @calculatedFrom(""\n""// a // b
-) Packet @lengthOf( zchar
-    ) , }// `tick` ""quote"" 'q'
-options { // a // b
-} packet a1 { @tag( 0123456789)u8
-    uint8x	`{ , }` ,
-    u32// " ++ [27880; 37322]%N ++ runes_of_ascii "
-x_y_z `say ""hi""`
-, }
+    = string // " ++ [27880; 37322]%N ++ runes_of_ascii "
+  ; } //
 ")).
-Eval vm_compute in ("<<<M938>>>" ++ check (runes_of_ascii "options {	o/// triple
-= '0'
-; } packet // @lengthOf(
-u128	{
-// @lengthOf(
-// `tick` ""quote"" 'q'
-@calculatedFrom(""{,}"" )
-uint16
-pack
-@calculatedFrom( """ ++ [233]%N ++ runes_of_ascii "t" ++ [233]%N ++ runes_of_ascii """)
-, }
-packet
-A { //x
-u8 chars@lengthOf( BodyLength )
-    ,
-    lengthOf @calculatedFrom(//x
-""// no comment""
-    ) , x_y_z{ string
-    Pad  `" ++ [233]%N ++ runes_of_ascii "` ,
-    // " ++ [27880; 37322]%N ++ runes_of_ascii "
-    len{ zchar[ 0123456789 ]
-T
-    ,
-    match // a // b
-u128 as	metadata  { 3 : u128 , ""\n"" :x [ """ ++ [233]%N ++ runes_of_ascii "t" ++ [233]%N ++ runes_of_ascii """,
-//
-// " ++ [27880; 37322]%N ++ runes_of_ascii "
-""packet""
-    ] : // @lengthOf(
-tag 10
-: options1 , ""abc""
-    : // trailing space 
-u ,	},} ,tag
-@calculatedFrom(
-    // packet A { u8 x, }
-    """" )
-`it's`	, } , } // " ++ [27880; 37322]%N)).
-Eval vm_compute in ("<<<M4394>>>" ++ check (runes_of_ascii "options {
-    LittleEndian = false;
-    ArrayPrefixLenType = u8;
-    FixedStringPadChar = '0';
-}
-
-packet Order {
-    InNote94 {
-        f32 f1,
-        f64 Side2,
-        repeat InTail47 {
-            char[] seqNo,
-            char[] Tail,
-            char[] lastPx,
-        },
-    },
-    zchar[7] f1,
-    u8 Side2,
-}
-
-root packet Reject {
-    repeat char[4] Flags,
-    InPrice63 {
-        InSeqno41 {
-            repeat i8 OrderId,
-            repeat i32 clOrdID,
-            char[9] tag7,
-            char[] lastPx,
-        },
-        Order,
-        uint8 Side2,
-    },
-}")).
-Eval vm_compute in ("<<<M614>>>" ++ check (runes_of_ascii "root packet
-packetx
-    {	string_  leftPad ,
-// " ++ [27880; 37322]%N ++ runes_of_ascii "
-//x
-} root
-    packet  o
-{x metadata `it's`, uint8
-metadata , i32
-    trueish, i64_ @calculatedFrom( ""`tick`"") ,// packet A { u8 x, }
-match matchKey  as
-repeatCount {[ //x
-""`tick`""
-]
-: Pad , 10
-    :
-    // `tick` ""quote"" 'q'
-    charz ,  7 : msg_type// c
-}
-, float64 body
-    @calculatedFrom( ""it's"") ,x_y_z @lengthOf(Header /// triple
-),body @calculatedFrom(
-    """ ++ [28040; 24687]%N ++ runes_of_ascii """
-    )`{ , }` ,
-} options{ } // " ++ [128512]%N ++ runes_of_ascii " emoji
-options{ Z9_/// triple
-=
-    true;Z9_ = false leftPad = //x
-' 'As =char[] ;	}")).
-Eval vm_compute in ("<<<M3206>>>" ++ check (runes_of_ascii "// top
-options
-    // c0
-{
-    // c1
-charz
-    // c2
-=
-    // c3
-f64
-    // c4
-;
-    // c5
-metadata
-    // c6
-=
-    // c7
-7
-    // c8
-;
-    // c9
-}
-    // c10
-options
-    // c11
-{
-    // c12
-u128
-    // c13
-=
-    // c14
-10
-    // c15
-options1
-    // c16
-=
-    // c17
-true
-    // c18
-;
-    // c19
-zchar
-    // c20
-=
-    // c21
-uint16
-    // c22
-;
-    // c23
-lengthOf
-    // c24
-=
-    // c25
-true
-    // c26
-;
-    // c27
-}
-    // c28
-options
-    // c29
-{
-    // c30
-len
-    // c31
-=
-    // c32
-1
-    // c33
-}
-    // c34
-")).
-Eval vm_compute in ("<<<M4510>>>" ++ check (runes_of_ascii "MetaData a1 {
-    _x asx,
-}
-
-MetaData Packet {
-    BodyLength int,
-}
-
-root packet x {
-    @leftPad(' ')
-    f64 repeatCount @lengthOf(x) `line1
-    line2`,
-    @rightPad('\x00')
-    match i8i8 as pack {
-        [
-            10, 10, 1, 7, """ ++ [128512]%N ++ runes_of_ascii """,
-            ""a	b""
-        ] : leftPad,
-        [
-            255, 10, 0, 1, """ ++ [233]%N ++ runes_of_ascii "t" ++ [233]%N ++ runes_of_ascii """,
-            ""x y""
-        ] : A,
-        """ ++ [28040; 24687]%N ++ runes_of_ascii """ : u,
-        00 : charz,
-        // a // b
-        """ ++ [28040; 24687]%N ++ runes_of_ascii """ : len,
-        0 : As,
-    },
-    f32 x `" ++ [233]%N ++ runes_of_ascii "`,
-}
-
-MetaData x {
-}")).
-Eval vm_compute in ("<<<M251>>>" ++ check (runes_of_ascii "options { tag
-=
-false// c
-; charz =
-char[
-    //
-    4294967296 ] ; float = ' '; u =// `tick` ""quote"" 'q'
-zchar[ 255
-    ] x//x
-=
-    ""a\""b""}
-packet leftPad /// triple
-{match
-As as
-    falsey{ [ 10
-    ,0123456789, 007
-,
-""" ++ [28040; 24687]%N ++ runes_of_ascii """
-// a // b
-// trailing space 
-, //	t
-""packet""	, ""`tick`"", ""1"" ] :
-calculatedFrom , } ,@calculatedFrom(
-    ""it's""
-) float64// c
-x_y_z @lengthOf(  leftPad ) , trueish
-@lengthOf(packetx)
-    , }options
-{ string_	=
-    ""a\""b"" ;
-_x = false }
-")).
-Eval vm_compute in ("<<<M964>>>" ++ check (runes_of_ascii "// c
-root packet o{ @tag( 42
-) a1
-, }
-options { asx
-=char[ 0	]
-/// triple
-// `tick` ""quote"" 'q'
-;
-int =
-    // c
-    '\x00' ;_x	=
-""it's""	packetx // a // b
-= ""// no comment""  u8x = """ ++ [233]%N ++ runes_of_ascii "t" ++ [233]%N ++ runes_of_ascii """ } root// trailing space 
-packet T { @lengthOf( float )match falsey
-//	t
-// trailing space 
-as  matchKey {
-""a\\""
-: x_y_z
-// a // b
-// `tick` ""quote"" 'q'
-,
+Eval vm_compute in ("<<<M117>>>" ++ check (runes_of_ascii "root packet // packet A { u8 x, }
+f32a
+{ @lengthOf( int )char[]
     //x
-    } //
-, } options // a // b
-{ zchar = 0// trailing space 
-repeatCount= uint64
-    ;// a // b
-}")).
-Eval vm_compute in ("<<<M554>>>" ++ check (runes_of_ascii "root packet A	{ // packet A { u8 x, }
-char[]  msg_type
-    `two words` , // a // b
-@calculatedFrom( ""abc"" )
-@leftPad
-(
-'\x00'
-) @calculatedFrom(
-    ""x y""
-    ) repeat
-//x
-// @lengthOf(
-int64 chars, zchar[ 1
-] _x@calculatedFrom(	""1""
-    ) `doc` ,
-// c
-//x
-}packet stringy
-{int8
-calculatedFrom  @lengthOf(_x ) `line1
-line2` , @tag( 42 ) char[ 10 ]//
-Logon@lengthOf( roots ) `" ++ [233]%N ++ runes_of_ascii "`// " ++ [128512]%N ++ runes_of_ascii " emoji
-, i32 //
-options1  , i16 x_y_z ,
-    } 	 ")).
-Eval vm_compute in ("<<<M1301>>>" ++ check (runes_of_ascii "root	packet	u
-{ uint8x
-    // @lengthOf(
-    falsey
-, repeat char[ 0
-    ]
-o`u8 x,`  , @rightPad (
-'\x00')
-match leftPad
-    as
-    u { 7
-:crc
-, [""`tick`""
-,0123456789
-    ] :
-Packet ,
-    [ 42 ] : msg_type, 3 :
-    tag ,
-    } ,/// triple
-@calculatedFrom(
-""1"" )	char[ 1	] leftPad , } packet // " ++ [27880; 37322]%N ++ runes_of_ascii "
-o{ char[] falsey ,
-repeat
-i8
-//
-// " ++ [128512]%N ++ runes_of_ascii " emoji
-f32a `tab	here` ,
-float64 pack @calculatedFrom(
-    ""\" ++ [233]%N ++ runes_of_ascii """
-    ) , }
-")).
-Eval vm_compute in ("<<<M1335>>>" ++ check (runes_of_ascii "packet //	t
-metadata
-    /// triple
-    {
-@calculatedFrom( ""a\\""
-) // @lengthOf(
-@rightPad // trailing space 
-( '\x00' ) @rightPad (
-// a // b
-// " ++ [27880; 37322]%N ++ runes_of_ascii "
-'\x00' ) repeat	x	, }
-    MetaData
-T { int32 lengthOf
-// `tick` ""quote"" 'q'
-// packet A { u8 x, }
-, trueish T `` , rootA crc`a\`
-    , Pad A `{ , }`
-, }
-    MetaData
-    float { repeatCount
-string_  `" ++ [233]%N ++ runes_of_ascii "` , }
-    MetaData u128{ a1 BodyLength ,}
-")).
-Eval vm_compute in ("<<<M4400>>>" ++ check (runes_of_ascii "packet int // a // b
-
-	{  match
-
-pack
-
-as  charz{
-10:  // a // b
-  i8i8
-    ,  // @lengthOf(
-10 
-: 
-MetaDataX
-
-    ,  [ 42
-]
-:
-    options1
-	, },
-	repeat	uint16
-
-zchar
-,
-char[ 007 ] 
-asx ,
-	@lengthOf(	// " ++ [27880; 37322]%N ++ runes_of_ascii "
-		As
-	)  @calculatedFrom( ""1""  )
-
-lengthOf@lengthOf(
-BodyLength)	`tab	here` ,
-    char[]T `// not a comment`	, // packet A { u8 x, }
-@leftPad (
-
-)	packetx
-, }
-")).
-Eval vm_compute in ("<<<M1109>>>" ++ check (runes_of_ascii "options{ tag
-    =10// @lengthOf(
-u =00  stringy =	""`tick`"" ;} options { MetaDataX=
-    1 } // packet A { u8 x, }
-options{ lengthOf=
-255 ; int =  ""// no comment"" ;	falsey// packet A { u8 x, }
-= zchar[ 3
-    ] ;
-    // @lengthOf(
-    } MetaData asx { }
-MetaData a1{ int16 x_y_z , lengthOf matchKey ,	uint8 u128
-, x packetx , i32 charz, repeatCount As , }")).
-Eval vm_compute in ("<<<M4260>>>" ++ check (runes_of_ascii "options {
-    FixedStringPadFromLeft = true;
-    FixedStringPadChar = ' ';
-}
-
-packet Reject {
-}
-
-packet Fill {
-    repeat i16 Tail,
-}
-
-root packet Trade {
-    float64 Ref,
-    Fill,
-    u8 Note,
-    u16 count @lengthOf(Body),
-    match Note as Body {
-        [98, 101] : Fill,
-        34 : Reject,
-    },
-    u32 x @calculatedFrom(""CRC32""),
-}")).
-Eval vm_compute in ("<<<M347>>>" ++ check (runes_of_ascii "packet  f32a { }packet
-metadata
-{
-@calculatedFrom(
-""\" ++ [233]%N ++ runes_of_ascii """
-) repeat _x { string
-    // a // b
-    falsey , } ,
-@calculatedFrom( ""it's"" ) As leftPad `a\`
-,	@calculatedFrom( ""abc""
-) char[ //	t
-0 ]roots	,  @tag(
-    00 )match Pad as	roots
-{ 10 :x_y_z , 00 :  len [ ""// no comment""	]// a // b
-:  T }
-    , a1 Header `" ++ [233]%N ++ runes_of_ascii "`
-, // " ++ [27880; 37322]%N ++ runes_of_ascii "
-}")).
-Eval vm_compute in ("<<<M516>>>" ++ check (runes_of_ascii "root packet
-u128	{} MetaData
-u128 { int32
-    chars , i8 pack // " ++ [27880; 37322]%N ++ runes_of_ascii "
-, i8i8
-options1
-, /// triple
-char[] matchKey,	string
-    msg_type `doc` //
-,  string charz ,
-    }
-    // `tick` ""quote"" 'q'
-    packet
-// " ++ [128512]%N ++ runes_of_ascii " emoji
-// @lengthOf(
-BodyLength	{@lengthOf(
-    As ) repeat
-    _x{ i64_
-,
-    } , repeat char[ 3 ] roots ,}")).
-Eval vm_compute in ("<<<M1898>>>" ++ check (runes_of_ascii "MetaData
-    u { }  options {
-// c
-// @lengthOf(
-float = float32 ;rootA =false ; As =	int16 // `tick` ""quote"" 'q'
-repeatCount
-    // trailing space 
-    =
-    int16
-; u8x =
-    //	t
-    '\x00' ; } options	{
-    repeatCount
-= 0
-u128
-    //
-    = false ; i64_
-// trailing space 
-// `tick` ""quote"" 'q'
-= '0' ; //	t
-}
-")).
-Eval vm_compute in ("<<<M2061>>>" ++ check (runes_of_ascii "MetaData
-    u { }  options {
-// c
-// @lengthOf(
-float = int8 ;rootA =false ; As =	int16 // `tick` ""quote"" 'q'
-repeatCount
-    // trailing space 
-    =
-    int16
-; u8x =
-    //	t
-    '\x00' ; ' } options	{
-    repeatCount
-= 0
-u128
-    //
-    = false ; i64_
-// trailing space 
-// `tick` ""quote"" 'q'
-= '0' ; //	t
-}
-")).
-Eval vm_compute in ("<<<M1892>>>" ++ check (runes_of_ascii "MetaData
-    u { }  options {
-// c
-// @lengthOf(
-float int8 = ;rootA =false ; As =	int16 // `tick` ""quote"" 'q'
-repeatCount
-    // trailing space 
-    =
-    int16
-; u8x =
-    //	t
-    '\x00' ; } options	{
-    repeatCount
-= 0
-u128
-    //
-    = false ; i64_
-// trailing space 
-// `tick` ""quote"" 'q'
-= '0' ; //	t
-}
-")).
-Eval vm_compute in ("<<<M2042>>>" ++ check (runes_of_ascii "MetaData
-    u { }  options {
-// c
-// @lengthOf(
-float = int8 ;rootA =false ; As =	int16 // `tick` ""quote"" 'q'
-repeatCount
-    // trailing space 
-    =
-    int16
-; u8x =
-    //	t
-    '\x00' ; } options	{
-    repeatCount
-= 0
-u128
-    //
-    = false ; i64_
-// trailing space 
-// `tick` ""quote"" 'q'
-= ; '0' //	t
-}
-")).
-Eval vm_compute in ("<<<M1908>>>" ++ check (runes_of_ascii "MetaData
-    u { }  options {
-// c
-// @lengthOf(
-float = int8 ;f32 =false ; As =	int16 // `tick` ""quote"" 'q'
-repeatCount
-    // trailing space 
-    =
-    int16
-; u8x =
-    //	t
-    '\x00' ; } options	{
-    repeatCount
-= 0
-u128
-    //
-    = false ; i64_
-// trailing space 
-// `tick` ""quote"" 'q'
-= '0' ; //	t
-}
-")).
-Eval vm_compute in ("<<<M724>>>" ++ check (runes_of_ascii "// " ++ [128512]%N ++ runes_of_ascii " emoji
-packet
-    u { int `two words` ,
-} packet
-    Packet	{ repeat zchar Foo// @lengthOf(
-,	} packet f32a // c
-{ uint32
-Packet`
-`, @lengthOf(
-    msg_type	) @calculatedFrom(
-    ""it's"" )repeat
-    repeatCount { repeat zchar[ 255 ] u8x ,repeat MetaDataX// c
-`" ++ [28040; 24687; 31867; 22411]%N ++ runes_of_ascii "` , int64
-    Pad `tab	here` ,} ,}
-")).
-Eval vm_compute in ("<<<M1281>>>" ++ check (runes_of_ascii "MetaData a1	{ //x
-u8 u8x,}
-options
-    // " ++ [128512]%N ++ runes_of_ascii " emoji
-    { float
-='0'/// triple
-;
-    // @lengthOf(
-    pack =
-// packet A { u8 x, }
-// @lengthOf(
-string
-    ; }
-MetaData
-packetx {
-tag
-Foo`
-`,  uint8x asx , uint16
-body	,
-T x ,// packet A { u8 x, }
-float a1 `
-`
-    , matchKey  crc
-, }
-// a // b
-")).
-Eval vm_compute in ("<<<M782>>>" ++ check (runes_of_ascii "root packet
-    i8i8
-{ i8 crc,
-    // @lengthOf(
-    @rightPad () uint64 u128`two words`
-//
-//	t
-,//	t
-uint64
-_x	`{ , }` ,
-// c
-//x
-} options {
-As =""abc""leftPad
-// " ++ [128512]%N ++ runes_of_ascii " emoji
+    o, a1 @lengthOf( packetx
+) // " ++ [27880; 37322]%N ++ runes_of_ascii "
+`u8 x,`
 /// triple
-= ""CRC32""
-charz =	char[ 65535 ] //	t
-;x_y_z // trailing space 
-= true ; }// @lengthOf(
-options { }
-")).
-Eval vm_compute in ("<<<M32>>>" ++ check (runes_of_ascii "options	{
-    // `tick` ""quote"" 'q'
-    Foo
-= zchar[
-    1
-]uint8x =""// no comment"" Pad
-=
-    //
-    char[] ;
-    A
-= 4294967296
-    a1 = ""`tick`"" ; } packet BodyLength  {
-@calculatedFrom(
-""packet"" ) roots `// not a comment`,@tag( 10 ) f32 uint8x/// triple
-`" ++ [28040; 24687; 31867; 22411]%N ++ runes_of_ascii "`
-,	}
-
-")).
-Eval vm_compute in ("<<<M1523>>>" ++ check (runes_of_ascii "packet
-//	t
-// trailing space 
-_x {
-// packet A { u8 x, }
-// c
-char[
-3
-    ] u8x @lengthOf( @lengthOf(
-u8x ) , @calculatedFrom(""" ++ [128512]%N ++ runes_of_ascii """ // @lengthOf(
-)
-i16	Foo
-@lengthOf(	string_
-    )`doc`	, repeat	i64 metadata , @lengthOf( string_
-) i8 // c
-u  `line1
-line2`	,
-}
-")).
-Eval vm_compute in ("<<<M3619>>>" ++ check (runes_of_ascii "  options
-
-{StringPrefixLenType	= u16
-; FixedStringPadChar
-    =' ' 
-;
-    }
-packet Party{}
-packet
-Quote
-{repeat
-    Party 
-,	repeat
-	char[ 
-2]
-    f1
-
-    ,	}  packet 
-Logon 
-{}
-
-    root packet	Cancel 
-{uint16 x
-
+/// triple
 ,
-
-    zchar[  6
-
-]
-	f1 ,
-    }")).
-Eval vm_compute in ("<<<M1608>>>" ++ check (runes_of_ascii "packet
-//	t
-// trailing space 
-_x {
-// packet A { u8 x, }
-// c
-char[
-3
-    ] u8x @lengthOf(
-u8x ) , @calculatedFrom(""" ++ [128512]%N ++ runes_of_ascii """ // @lengthOf(
-)
-i16	Foo
-@lengthOf(	string_
-    )`doc`	, repeat	i64 metadata , , @lengthOf( string_
-) i8 // c
-u  `line1
-line2`	,
-}
-")).
-Eval vm_compute in ("<<<M1499>>>" ++ check (runes_of_ascii "packet
-//	t
-// trailing space 
-_x char[
-// packet A { u8 x, }
-// c
-{
-3
-    ] u8x @lengthOf(
-u8x ) , @calculatedFrom(""" ++ [128512]%N ++ runes_of_ascii """ // @lengthOf(
-)
-i16	Foo
-@lengthOf(	string_
-    )`doc`	, repeat	i64 metadata , @lengthOf( string_
-) i8 // c
-u  `line1
-line2`	,
-}
-")).
-Eval vm_compute in ("<<<M1644>>>" ++ check (runes_of_ascii "packet
-//	t
-// trailing space 
-_x {
-// packet A { u8 x, }
-// c
-char[
-3
-    ] u8x @lengthOf(
-u8x ) , @calculatedFrom(""" ++ [128512]%N ++ runes_of_ascii """ // @lengthOf(
-)
-i16	Foo
-@lengthOf(	string_
-    )`doc`	, repeat	i64 metadata , @lengthOf( string_
-) i8 // c
-u  `line1
-line2`	}
-,
-")).
-Eval vm_compute in ("<<<M1527>>>" ++ check (runes_of_ascii "packet
-//	t
-// trailing space 
-_x {
-// packet A { u8 x, }
-// c
-char[
-3
-    ] u8x @lengthOf(
- ) , @calculatedFrom(""" ++ [128512]%N ++ runes_of_ascii """ // @lengthOf(
-)
-i16	Foo
-@lengthOf(	string_
-    )`doc`	, repeat	i64 metadata , @lengthOf( string_
-) i8 // c
-u  `line1
-line2`	,
-}
-")).
-Eval vm_compute in ("<<<M3691>>>" ++ check (runes_of_ascii "packet rootA {
-    char[4294967296] rootA @calculatedFrom(""a	b"") `crlf
-    line`,
-    @calculatedFrom("""")
-    // a // b
-    // trailing space 
-    pack @lengthOf(rootA) `
-    `,
-    @rightPad(' ')
-    repeat stringy repeatCount `two words`,
-}")).
-Eval vm_compute in ("<<<M686>>>" ++ check (runes_of_ascii "packet
-// a // b
-// packet A { u8 x, }
-matchKey { lengthOf	{ charz int
 // " ++ [128512]%N ++ runes_of_ascii " emoji
-// packet A { u8 x, }
-,
-match
-uint8x as A
-    // a // b
-    {
-    65535: rootA
-, } ,	repeat char[]
-    // a // b
-    T, }
-    , repeat charz  roots,	}
-")).
-Eval vm_compute in ("<<<M1206>>>" ++ check (runes_of_ascii "packet body { As
-    @lengthOf(	string_ ) `two words`	, zchar[ 10 ] i8i8@calculatedFrom( ""`tick`""),
-zchar[ 0 ]
-    pack
-@calculatedFrom(
-""x y"" ) ,uint8 rootA @calculatedFrom( ""a\\""), i32
-    msg_type ,
-    u8 repeatCount ,}")).
-Eval vm_compute in ("<<<M3537>>>" ++ check (runes_of_ascii "// top
-packet // c0a
-  // c0b
-Inner // c1
-{ // c2
-u8 a // c4a
-  // c4b
-, // c5a
-  // c5b
-} root // c7a
-  // c7b
-packet
-    // c8
-P
-    // c9
-{ repeat Inner items // c13a
-  // c13b
-, // c14
-u8 x
-    // c16
-, // c17
-} ")).
-Eval vm_compute in ("<<<M872>>>" ++ check (runes_of_ascii "
-options
-    // @lengthOf(
-    {
-    } root packet
-    // c
-    falsey {}MetaData _x {}
-packet
-// packet A { u8 x, }
-// trailing space 
-o
-    // " ++ [128512]%N ++ runes_of_ascii " emoji
-    {falsey , @tag(3
-) // `tick` ""quote"" 'q'
-uint8 Foo,}")).
-Eval vm_compute in ("<<<M4417>>>" ++ check (runes_of_ascii "
-
-  options
-
-{ 
-}  MetaData
-
-    len
-
-    {
-
-crc
-
-Foo	, char[]x_y_z
-    `// not a comment`,
-    }
-
-options { a1 
-=
-""" ++ [128512]%N ++ runes_of_ascii """	;  _x = 0123456789  _x=
-	true
-	u8x=
-
-    ""packet""
-trueish 
-= string// " ++ [27880; 37322]%N ++ runes_of_ascii "
-
-; }	//
-")).
+// @lengthOf(
+@calculatedFrom( ""1""
+)u8
+Header ,
+    }")).
 Eval vm_compute in ("<<<M889>>>" ++ check (runes_of_ascii "MetaData T {
 // c
 //	t
@@ -2176,11 +1975,11 @@ packet Logon {
 u16 string_ `u8 x,` ,
 }
 ")).
-Eval vm_compute in ("<<<M1756>>>" ++ check (runes_of_ascii "options { trueish = ""`tick`"" ; string_= """ ++ [233]%N ++ runes_of_ascii "t" ++ [233]%N ++ runes_of_ascii """
+Eval vm_compute in ("<<<M1744>>>" ++ check (runes_of_ascii "options { trueish = ""`tick`"" ; string_= """ ++ [233]%N ++ runes_of_ascii "t" ++ [233]%N ++ runes_of_ascii """
     // c
     } root
-    packet body { stringy @calculatedFrom(
-""a	b""  `line1
+    packet body { repeat @calculatedFrom(
+""a	b"" ) `line1
 line2` , }
 packet Logon {
     @leftPad(
@@ -2188,186 +1987,217 @@ packet Logon {
 u16 string_ `u8 x,` ,
 }
 ")).
-Eval vm_compute in ("<<<M193>>>" ++ check (runes_of_ascii "MetaData
-    Header { }MetaData Logon {// trailing space 
-int32 falsey ,// " ++ [27880; 37322]%N ++ runes_of_ascii "
-packetx
-_x ,
-char[] Logon`two words`
-,
-    matchKey packetx ,
-    u32 u // packet A { u8 x, }
-,	i64 float `it's`
-, }
+Eval vm_compute in ("<<<M4521>>>" ++ check (runes_of_ascii "
+
+  MetaData x_y_z { string
+msg_type`" ++ [233]%N ++ runes_of_ascii "`
+	,
+}
+
+    packet	chars{
+
+repeat
+
+i32 metadata
+    `say ""hi""`
+
+,@leftPad (
+	) @tag( 0123456789 )
+repeat zchar[ 
+
+    // a // b
+	007]
+	//x
+		lengthOf , }
 ")).
-Eval vm_compute in ("<<<M1989>>>" ++ check (runes_of_ascii "MetaData
-    u { }  options {
-// c
-// @lengthOf(
-float = int8 ;rootA =false ; As =	int16 // `tick` ""quote"" 'q'
-repeatCount
-    // trailing space 
-    =
-    int16
-; u8x =
-    //	t
-    '\x00' ; }")).
-Eval vm_compute in ("<<<M1606>>>" ++ check (runes_of_ascii "packet
-//	t
-// trailing space 
-_x {
-// packet A { u8 x, }
-// c
-char[
-3
-    ] u8x @lengthOf(
-u8x ) , @calculatedFrom(""" ++ [128512]%N ++ runes_of_ascii """ // @lengthOf(
+Eval vm_compute in ("<<<M326>>>" ++ check (runes_of_ascii "// @lengthOf(
+root packet
+MetaDataX{
+    repeat
+i16
+packetx, @tag( 007 )
+x
+    @lengthOf(
+_x
 )
-i16	Foo
-@lengthOf(	string_
-    )`doc`	, repeat	i64")).
-Eval vm_compute in ("<<<M4436>>>" ++ check (runes_of_ascii "  MetaData crc  // trailing space 
-
-  { }
-	options
-
-    {  metadata
-= 
-10
-; u
-= 65535 repeatCount =
-
-    char[  0123456789 // packet A { u8 x, }
-] 
-}
-
-    MetaData	i8i8 {
-}
-")).
-Eval vm_compute in ("<<<M3869>>>" ++ check (runes_of_ascii "options {
-    options1 = 1;
-}
-
-options {
-    A = 00
-}
-
-MetaData repeatCount {
-    char[] u8x,
-    char[] u128,
-    body roots `" ++ [28040; 24687; 31867; 22411]%N ++ runes_of_ascii "`,
-    msg_type As,
-}
-
-MetaData string_ {
-}")).
-Eval vm_compute in ("<<<M3728>>>" ++ check (runes_of_ascii "  packet Packet
-	{ i8
-MetaDataX 
-,}
-	root packet a1 {	rootA
-@lengthOf(uint8x
-
-    ), 
-repeatCount
-{char[]
-
-    u
-
-    ,
-    u16 msg_type
-	`a\`,
-	} 
 ,
-
-    } ")).
-Eval vm_compute in ("<<<M2365>>>" ++ check (runes_of_ascii "// c
-packet x { @lengthOf( metadata ) repeat lengthOf
-,a1{
-trueish trueish	,// c
-repeat//	t
-MetaDataX , } , zchar[
-    42	] rootA // `tick` ""quote"" 'q'
-,
-    }
-")).
-Eval vm_compute in ("<<<M627>>>" ++ check (runes_of_ascii "//
-MetaData calculatedFrom {
-    char[ 42 ]
-tag	,
-    body tag ``
-, int16 int , zchar[ 42 ] tag //	t
-`doc`
-, char[]matchKey , uint32 // " ++ [128512]%N ++ runes_of_ascii " emoji
-Z9_,  } //	t")).
-Eval vm_compute in ("<<<M548>>>" ++ check (runes_of_ascii "
-packet
-uint8x{
-    @tag( 65535	)
-char[
-    //
-    7 ] trueish
-@lengthOf( options1)
-    `{ , }` ,  } MetaData// @lengthOf(
-rootA { } root
-packet leftPad {}")).
-Eval vm_compute in ("<<<M2419>>>" ++ check (runes_of_ascii "// c
-packe#t x { @lengthOf( metadata ) repeat lengthOf
-,a1{
-trueish	,// c
-repeat//	t
-MetaDataX , } , zchar[
-    42	] rootA // `tick` ""quote"" 'q'
-,
-    }
-")).
-Eval vm_compute in ("<<<M2398>>>" ++ check (runes_of_ascii "// c
-packet x { @lengthOf( metadata ) repeat lengthOf
-,a1{
-trueish	,// c
-repeat//	t
-MetaDataX ; } , zchar[
-    42	] rootA // `tick` ""quote"" 'q'
-,
-    }
-")).
-Eval vm_compute in ("<<<M699>>>" ++ check (runes_of_ascii "// `tick` ""quote"" 'q'
-root packet u8x{match zchar as falsey
-    { """ ++ [128512]%N ++ runes_of_ascii """:
-    len	},}MetaData// c
-rootA
-{
-    //
-    char[
-3 ] rootA , uint64
-asx
-    , }")).
-Eval vm_compute in ("<<<M0>>>" ++ check (runes_of_ascii "
-packet /// triple
-uint8x	{@calculatedFrom(
-""a	b"" )
-//
-// " ++ [128512]%N ++ runes_of_ascii " emoji
-i32 charz
-    ,
-match //x
-x	as
-x {""a	b""  :
-lengthOf,} , leftPad
-    `{ , }` , } //x")).
-Eval vm_compute in ("<<<M1795>>>" ++ check (runes_of_ascii "options { trueish = ""`tick`"" ; string_= """ ++ [233]%N ++ runes_of_ascii "t" ++ [233]%N ++ runes_of_ascii """
+@calculatedFrom(  """ ++ [28040; 24687]%N ++ runes_of_ascii """ ) repeat
+Pad ,	@lengthOf(
+falsey) @tag( 00 ) @tag( 3
+    )string i8i8,}")).
+Eval vm_compute in ("<<<M1746>>>" ++ check (runes_of_ascii "options { trueish = ""`tick`"" ; string_= """ ++ [233]%N ++ runes_of_ascii "t" ++ [233]%N ++ runes_of_ascii """
     // c
     } root
-    packet body { stringy @calculatedFrom(
+    packet body { stringy 
 ""a	b"" ) `line1
 line2` , }
-packet Logon {")).
-Eval vm_compute in ("<<<M2124>>>" ++ check (runes_of_ascii "options{
+packet Logon {
+    @leftPad(
+    ' ' ) //	t
+u16 string_ `u8 x,` ,
+}
+")).
+Eval vm_compute in ("<<<M372>>>" ++ check (runes_of_ascii "MetaData // " ++ [128512]%N ++ runes_of_ascii " emoji
+chars { int64 metadata	,
+char[00] stringy
+//
+// c
+,
+    f64 Foo ,} options {	} options {As = char[ 4294967296
+]A =
+""x y""options1=	float32 Logon =  '\x00' ;	}
+")).
+Eval vm_compute in ("<<<M1107>>>" ++ check (runes_of_ascii "MetaData
+// `tick` ""quote"" 'q'
+/// triple
+matchKey// " ++ [27880; 37322]%N ++ runes_of_ascii "
+{  char[ //x
+255
+] Pad`it's`
+, u8
+x_y_z //
+, i64_ packetx// a // b
+`tab	here` // " ++ [128512]%N ++ runes_of_ascii " emoji
+,trueish
+zchar`it's` , }
+
+")).
+Eval vm_compute in ("<<<M4033>>>" ++ check (runes_of_ascii "
+MetaData tag
+{  char[ 
+3 
+	    // trailing space 
+  ]	u8x ,
+	packetx
+a1
+	,
+    } 	 // packet A { u8 x, }
+    MetaData chars 
+{
+    i16 uint8x 
+`tab	here`
+    ,  }
+
+")).
+Eval vm_compute in ("<<<M3556>>>" ++ check (runes_of_ascii "
+options {
+	LittleEndian
+
+    =true ;}  packet
+    B
+	{u8
+	a
+,string
+
+    s  , }
+root
+
+    packet
+
+    P
+	{ u16
+L@lengthOf(
+B )
+
+    , B , u8 t  , 
+}")).
+Eval vm_compute in ("<<<M234>>>" ++ check (runes_of_ascii "options
+{ f32a= zchar[3
+//
+// c
+]
+// " ++ [128512]%N ++ runes_of_ascii " emoji
+//	t
+}	packet falsey
+{
+Z9_ ,body
+    @calculatedFrom( //
+""\n""
+// packet A { u8 x, }
+// c
+)
+    ,} options { }
+")).
+Eval vm_compute in ("<<<M4012>>>" ++ check (runes_of_ascii "packet A {
+    match k as n {
+        [
+            1, 22, ""c c"", 4, 5,
+            ""f"", 7, 8, ""i"", 10,
+            11
+        ] : B,
+        2 : C,
+    },
+}")).
+Eval vm_compute in ("<<<M2342>>>" ++ check (runes_of_ascii "// c
+packet x { @lengthOf( metadata ) repeat lengthOf
+,a1${
+trueish	,// c
+repeat//	t
+MetaDataX , } , zchar[
+    42	] rootA // `tick` ""quote"" 'q'
+,
+    }
+")).
+Eval vm_compute in ("<<<M2334>>>" ++ check (runes_of_ascii "// c
+packet x { @lengthOf( metadata ) repeat lengthOf
+,a1{
+trueish	,// c
+repeat//	t
+MetaDataX , } , zchar[
+    42	] , // `tick` ""quote"" 'q'
+rootA
+    }
+")).
+Eval vm_compute in ("<<<M2396>>>" ++ check (runes_of_ascii "// c
+packet  { @lengthOf( metadata ) repeat lengthOf
+,a1{
+trueish	,// c
+repeat//	t
+MetaDataX , } , zchar[
+    42	] rootA // `tick` ""quote"" 'q'
+,
+    }
+")).
+Eval vm_compute in ("<<<M2176>>>" ++ check (runes_of_ascii "options{
 _x
 = true
 } options
 { o	= /// triple
+false
+    ; chars
+= ""\n"" } root packet	Pad
+/// triple
+// packet A { u8 x, }
+{	,
+    // a // b
+    chars}")).
+Eval vm_compute in ("<<<M4579>>>" ++ check (runes_of_ascii "options {
+    matchKey = 10
+}
 
+MetaData options1 {
+    matchKey o `doc`,
+    rootA tag,
+    uint32 _x `line1
+    line2`,
+    char[] chars `say ""hi""`,
+}")).
+Eval vm_compute in ("<<<M2357>>>" ++ check (runes_of_ascii "// c
+ x { @lengthOf( metadata ) repeat lengthOf
+,a1{
+trueish	,// c
+repeat//	t
+MetaDataX , } , zchar[
+    42	] rootA // `tick` ""quote"" 'q'
+,
+    }
+")).
+Eval vm_compute in ("<<<M2104>>>" ++ check (runes_of_ascii "options{
+_x
+= true
+} 
+{ o	= /// triple
+false
     ; chars
 = ""\n"" } root packet	Pad
 /// triple
@@ -2375,126 +2205,124 @@ _x
 {	chars
     // a // b
     ,}")).
-Eval vm_compute in ("<<<M2316>>>" ++ check (runes_of_ascii "// c
-packet x {  metadata ) repeat lengthOf
-,a1{
-trueish	,// c
-repeat//	t
-MetaDataX , } , zchar[
-    42	] rootA // `tick` ""quote"" 'q'
-,
-    }
-")).
-Eval vm_compute in ("<<<M4041>>>" ++ check (runes_of_ascii "packet A {
-    u16 len @lengthOf(body) `a
-        b
-      c`,
-    u32 crc @calculatedFrom(""CRC32"") `a
-        b
-      c`,
-    string body,
-}")).
-Eval vm_compute in ("<<<M1780>>>" ++ check (runes_of_ascii "options { trueish = ""`tick`"" ; string_= """ ++ [233]%N ++ runes_of_ascii "t" ++ [233]%N ++ runes_of_ascii """
-    // c
-    } root
-    packet body { stringy @calculatedFrom(
-""a	b"" ) `line1
-line2` , }")).
-Eval vm_compute in ("<<<M4243>>>" ++ check (runes_of_ascii "root packet matchKey {
-    // c
-    zchar[3] pack @calculatedFrom(""a	b"") `doc`,
-}
+Eval vm_compute in ("<<<M3550>>>" ++ check (runes_of_ascii "packet
+	B {
 
-options {
-}
+    u8
 
-MetaData A {
-    int8 msg_type,
-}")).
-Eval vm_compute in ("<<<M1064>>>" ++ check (runes_of_ascii "MetaData u
-    // packet A { u8 x, }
-    { packetx A
-    , /// triple
-zchar[ 10 ] Packet
-    `" ++ [28040; 24687; 31867; 22411]%N ++ runes_of_ascii "`,
-char[ 10 ]x
-    ,
-}
+a ,}  root  packet  P
+	{
+    u8
+    K, 
+match
+    K
+
+    as	Body
+
+{
+
+1
+: B	,
+	},
+
+u16
+    L
+
+@lengthOf(
+
+Body)
+	,}
 ")).
-Eval vm_compute in ("<<<M3545>>>" ++ check (runes_of_ascii "packet B {
+Eval vm_compute in ("<<<M796>>>" ++ check (runes_of_ascii "//
+MetaData  u{uint64	string_
+`doc` ,A metadata`u8 x,`
+, string Logon `u8 x,` , float64 float ,
+    char[] T
+`crlf
+line` , u8 Logon, }
+")).
+Eval vm_compute in ("<<<M647>>>" ++ check (runes_of_ascii "MetaData a1 { x_y_z crc `say ""hi""` , uint16 i8i8 `// not a comment`
+, char[] u `{ , }`
+, Pad Header
+, u32
+    packetx `{ , }` , }
+")).
+Eval vm_compute in ("<<<M1471>>>" ++ check (runes_of_ascii "
+packet
+    falsey { Header@calculatedFrom(""packet""  ) , char[
+    0123456789 ] @leftpadpacketx
+    , } // `tick` ""quote"" 'q'")).
+Eval vm_compute in ("<<<M1154>>>" ++ check (runes_of_ascii "packet MetaDataX
+{repeat tag
+    i64_
+,@calculatedFrom(
+    ""packet"")
+    // trailing space 
+    Packet	`tab	here`
+    , }")).
+Eval vm_compute in ("<<<M3326>>>" ++ check (runes_of_ascii "root packet matchKey { zchar[ 3 ] pack // c
+@calculatedFrom( ""a	b"" ) `doc` , } options { } MetaData A { int8 msg_type , }")).
+Eval vm_compute in ("<<<M3542>>>" ++ check (runes_of_ascii "packet B {
     u8 a,
 }
 root packet P {
     u8 K,
-    u64 L @lengthOf(Body),
+    u8 L @lengthOf(Body),
     match K as Body {
         1 : B,
     },
 }
 ")).
-Eval vm_compute in ("<<<M3332>>>" ++ check (runes_of_ascii "root packet matchKey { zchar[ 3 ] pack @calculatedFrom( ""a	b"" ) // c
-`doc` , } options { } MetaData A { int8 msg_type , }")).
-Eval vm_compute in ("<<<M3951>>>" ++ check (runes_of_ascii "
-options
-    {
-
-    x_y_z =""CRC32""; }
-MetaData
-	matchKey 
-{ char[]u `u8 x,`
-	,	// trailing space 
-	}options{
-    }
-
-")).
-Eval vm_compute in ("<<<M3948>>>" ++ check (runes_of_ascii "packet
-
-a1 {
-
-match/// triple
-T as pack
-{
-	007 : 
-Header 
-,
-
-    }
-	, calculatedFrom,	} 
-MetaData 
-options1
-	{ 
+Eval vm_compute in ("<<<M1479>>>" ++ check (runes_of_ascii "
+packet
+    falsey { Header@calculatedFrom(""packet""  ) " ++ [0]%N ++ runes_of_ascii ", char[
+    0123456789 ] packetx
+    , } // `tick` ""quote"" 'q'")).
+Eval vm_compute in ("<<<M2990>>>" ++ check (runes_of_ascii "packet A {
+  match k as n {
+    [""a"", ""bb"", ""c c"", ""d"", ""e"", ""f"", ""g"", ""h"", ""i"", ""j"", ""k"", ""l""] : B,
+    2 : C
+  },
+}")).
+Eval vm_compute in ("<<<M3045>>>" ++ check (runes_of_ascii "packet A {
+    u16 len @lengthOf(body) `tab
+	x`,
+    u32 crc @calculatedFrom(""CRC32"") `tab
+	x`,
+    string body,
+}")).
+Eval vm_compute in ("<<<M257>>>" ++ check (runes_of_ascii "options
+{ u // a // b
+=42 x_y_z
+    =' ' ;msg_type =
+    true ; u
+=10 ;  } options { zchar =
+uint8
+;  } // c")).
+Eval vm_compute in ("<<<M406>>>" ++ check (runes_of_ascii "options	{ roots = ""CRC32""zchar
+= string; f32a
+=string ; pack
+    =
+""x y"" }options {
+    // @lengthOf(
+    }")).
+Eval vm_compute in ("<<<M3692>>>" ++ check (runes_of_ascii "packet metadata {
+    Logon {
+        A `" ++ [28040; 24687; 31867; 22411]%N ++ runes_of_ascii "`,
+        tag o,
+    },
+    zchar len `// not a comment`,
+}")).
+Eval vm_compute in ("<<<M3770>>>" ++ check (runes_of_ascii "packet chars {
+    // c
 }
-")).
-Eval vm_compute in ("<<<M1447>>>" ++ check (runes_of_ascii "
-packet
-    falsey { Header@calculatedFrom(""packet""  ) , char[
-    0123456789  packetx
-    , } // `tick` ""quote"" 'q'")).
-Eval vm_compute in ("<<<M943>>>" ++ check (runes_of_ascii "
-options { msg_type
-=
-    42;
-    metadata  =
-""""
-;matchKey
-=
-// packet A { u8 x, }
-// `tick` ""quote"" 'q'
-u8 }
-")).
-Eval vm_compute in ("<<<M1452>>>" ++ check (runes_of_ascii "
-packet
-    falsey { Header@calculatedFrom(""packet""  ) , char[
-    0123456789 ] 
-    , } // `tick` ""quote"" 'q'")).
-Eval vm_compute in ("<<<M2329>>>" ++ check (runes_of_ascii "// c
-packet x { @lengthOf( metadata ) repeat lengthOf
-,a1{
-trueish	,// c
-repeat//	t
-MetaDataX , } , zchar[")).
-Eval vm_compute in ("<<<M4430>>>" ++ check (runes_of_ascii "// c
-MetaData float {
+
+packet MetaDataX {
+    @tag(42)
+    i16 string_,
+    repeat x `say ""hi""`,
+}")).
+Eval vm_compute in ("<<<M3993>>>" ++ check (runes_of_ascii "MetaData float {
     float64 charz `
         `,
 }
@@ -2503,106 +2331,87 @@ root packet chars {
     @rightPad('0')
     Foo,
 }")).
-Eval vm_compute in ("<<<M1351>>>" ++ check (runes_of_ascii "options { options1 =
-char[
-00
-]
-    ; len=
-""" ++ [128512]%N ++ runes_of_ascii """ ; a1
-    =
-    42
-    Header =
-' '}packet Foo { }
-
-")).
-Eval vm_compute in ("<<<M2969>>>" ++ check (runes_of_ascii "packet A {
+Eval vm_compute in ("<<<M2959>>>" ++ check (runes_of_ascii "packet A {
   match k as n {
-    [""a"", 22, ""c c"", 4, ""e"", 66, ""g"", 8, ""i"", 10] : B
+    [""a"", ""bb"", 007, ""d"", ""e"", 66, ""g"", ""h"", 9] : B,
     2 : C
   },
 }")).
-Eval vm_compute in ("<<<M3970>>>" ++ check (runes_of_ascii "options {
-    crc = '0';
-    _x = ""a\""b""
-    trueish = char[1]
-    charz = 00;
-    As = ""a\""b""
-}")).
-Eval vm_compute in ("<<<M2219>>>" ++ check (runes_of_ascii "options
-{ MetaData options { BodyLength= u16 Header= f64 ; u128 =
-    true
-    ; } // a // b")).
-Eval vm_compute in ("<<<M3566>>>" ++ check (runes_of_ascii "
+Eval vm_compute in ("<<<M1095>>>" ++ check (runes_of_ascii "// @lengthOf(
+MetaData Logon	{	char[]
+//	t
+// " ++ [27880; 37322]%N ++ runes_of_ascii "
+Foo // c
+, T
+roots , char[65535 ] Z9_ ,
+}
+")).
+Eval vm_compute in ("<<<M378>>>" ++ check (runes_of_ascii "packet
+len
+    /// triple
+    { @tag(1
+) zchar[1 ] Foo
+@lengthOf( Foo )
+,T zchar
+``
+, }
 
-  root
-packet
-
-    P {
-
-u16 a
-,u32	Sum
-	@calculatedFrom(
-
-    ""CRC32""
-
-    ) , 
-} ")).
-Eval vm_compute in ("<<<M3267>>>" ++ check (runes_of_ascii "// c
-MetaData float { float64 charz `
+")).
+Eval vm_compute in ("<<<M2173>>>" ++ check (runes_of_ascii "options{
+_x
+= true
+} options
+{ o	= /// triple
+false
+    ; chars
+= ""\n"" } root packet	Pad")).
+Eval vm_compute in ("<<<M3274>>>" ++ check (runes_of_ascii "MetaData float {
+// c
+float64 charz `
 ` , } root packet chars { @rightPad ( '0' ) Foo , }")).
-Eval vm_compute in ("<<<M3300>>>" ++ check (runes_of_ascii "MetaData float { float64 charz `
-` , } root packet chars { @rightPad ( '0' )
-// c
-Foo , }")).
-Eval vm_compute in ("<<<M3511>>>" ++ check (runes_of_ascii "packet chars { } packet MetaDataX { @tag( 42 ) i16 string_ , repeat // c
-x `say ""hi""` , }")).
-Eval vm_compute in ("<<<M275>>>" ++ check (runes_of_ascii "options {BodyLength=	""abc"" ;
-int	=
-""""
-; chars
-    = true	body
-    =
-// c
-//
-'\x00'
-}
-")).
-Eval vm_compute in ("<<<M519>>>" ++ check (runes_of_ascii "options  { Logon =char[0];} packet chars {
-u8 u  `u8 x,` ,	} options
-{ metadata= 0	}
-")).
-Eval vm_compute in ("<<<M3218>>>" ++ check (runes_of_ascii "packet metadata {
-// c
-Logon { A `" ++ [28040; 24687; 31867; 22411]%N ++ runes_of_ascii "` , tag o , } , zchar len `// not a comment` , }")).
-Eval vm_compute in ("<<<M3664>>>" ++ check (runes_of_ascii "
-packet 
-        // c
-	x
-    {
-@rightPad
-	() repeat
-
-roots
-    Logon
-    `doc` ,}
-
-")).
-Eval vm_compute in ("<<<M3438>>>" ++ check (runes_of_ascii "packet o { repeat Logon
-// c
-uint8x , } options { asx = zchar[ 3 ] stringy = '\x00' }")).
-Eval vm_compute in ("<<<M2259>>>" ++ check (runes_of_ascii "options
-{ } options { BodyLength= u16 Header= ] ; u128 =
+Eval vm_compute in ("<<<M3485>>>" ++ check (runes_of_ascii "packet // c
+chars { } packet MetaDataX { @tag( 42 ) i16 string_ , repeat x `say ""hi""` , }")).
+Eval vm_compute in ("<<<M3517>>>" ++ check (runes_of_ascii "packet chars { } packet MetaDataX { @tag( 42 ) i16 string_ , repeat x `say ""hi""` , // c
+}")).
+Eval vm_compute in ("<<<M2238>>>" ++ check (runes_of_ascii "options
+{ } options { BodyLength u16 = Header= f64 ; u128 =
     true
     ; } // a // b")).
-Eval vm_compute in ("<<<M369>>>" ++ check (runes_of_ascii "MetaData repeatCount
-    {
-    } options { // packet A { u8 x, }
-}
-// @lengthOf(
-")).
-Eval vm_compute in ("<<<M3415>>>" ++ check (runes_of_ascii "MetaData body { i64 pack `it's` , } packet stringy {
+Eval vm_compute in ("<<<M1379>>>" ++ check (runes_of_ascii "packet metadata {
+    @lengthOf(  Header) // " ++ [27880; 37322]%N ++ runes_of_ascii "
+float32
+options1
+    `line1
+line2`
+,}")).
+Eval vm_compute in ("<<<M3225>>>" ++ check (runes_of_ascii "packet metadata { Logon { A `" ++ [28040; 24687; 31867; 22411]%N ++ runes_of_ascii "` // c
+, tag o , } , zchar len `// not a comment` , }")).
+Eval vm_compute in ("<<<M2226>>>" ++ check (runes_of_ascii "options
+{ } options  BodyLength= u16 Header= f64 ; u128 =
+    true
+    ; } // a // b")).
+Eval vm_compute in ("<<<M3448>>>" ++ check (runes_of_ascii "packet o { repeat Logon uint8x , } options {
 // c
-int16 calculatedFrom , }")).
+asx = zchar[ 3 ] stringy = '\x00' }")).
+Eval vm_compute in ("<<<M4256>>>" ++ check (runes_of_ascii "MetaData body {
+    i64 pack `it's`,
+}
+
+packet stringy {
+    int16 calculatedFrom,
+}")).
+Eval vm_compute in ("<<<M2931>>>" ++ check (runes_of_ascii "packet A {
+  match k as n {
+    [1, 22, ""c c"", 4, 5, ""f"", 7] : B,
+    2 : C
+  },
+}")).
+Eval vm_compute in ("<<<M3591>>>" ++ check (runes_of_ascii "packet orderItem  {u8
+    a ,}  root packet 
+newOrder
+	{ orderItem , u8	x
+    ,}
+")).
 Eval vm_compute in ("<<<M3557>>>" ++ check (runes_of_ascii "options {
     FixedStringPadFromLeft = true;
 }
@@ -2610,57 +2419,80 @@ root packet P {
     char[4] z,
 }
 ")).
-Eval vm_compute in ("<<<M2886>>>" ++ check (runes_of_ascii "packet A {
-  match k as n {
-    [""a"", ""bb"", ""c c"", ""d""] : B,
-    2 : C
-  },
+Eval vm_compute in ("<<<M4287>>>" ++ check (runes_of_ascii "  // " ++ [27880; 37322]%N ++ runes_of_ascii "
+options
+	{  u8x 
+=
+    zchar[	0 ]  ; 
+len
+=' '; leftPad  =
+	false;} ")).
+Eval vm_compute in ("<<<M3883>>>" ++ check (runes_of_ascii "packet A {
+    match k as n {
+        [1, 22] : B,
+        2 : C,
+    },
 }")).
-Eval vm_compute in ("<<<M3767>>>" ++ check (runes_of_ascii "packet Inner {
-    u8 a,
+Eval vm_compute in ("<<<M4535>>>" ++ check (runes_of_ascii "
+packet  A
+{ B
+
+b `tab
+	x` ,
+B
+    `tab
+	x`, repeat
+B	bs `tab
+	x`
+	,
+} ")).
+Eval vm_compute in ("<<<M4605>>>" ++ check (runes_of_ascii "packet  x {
+	@rightPad
+	( )repeat// c
+	roots	Logon `doc`
+,
+
+    }")).
+Eval vm_compute in ("<<<M3026>>>" ++ check (runes_of_ascii "packet A {
+    B b `a
+
+b`,
+    B `a
+
+b`,
+    repeat B bs `a
+
+b`,
+}")).
+Eval vm_compute in ("<<<M1177>>>" ++ check (runes_of_ascii "packet // @lengthOf(
+o{ }options
+{Logon /// triple
+=
+    00 }
+")).
+Eval vm_compute in ("<<<M1904>>>" ++ check (runes_of_ascii "MetaData
+    u { }  options {
+// c
+// @lengthOf(
+float = int8")).
+Eval vm_compute in ("<<<M3923>>>" ++ check (runes_of_ascii "packet float {
 }
 
-root packet P {
-    Inner ref_obj,
-    u8 x,
+MetaData As {
+    char[] trueish,
+}
+// " ++ [27880; 37322]%N)).
+Eval vm_compute in ("<<<M3382>>>" ++ check (runes_of_ascii "packet x { @rightPad ( ) repeat roots Logon
+// c
+`doc` , }")).
+Eval vm_compute in ("<<<M3945>>>" ++ check (runes_of_ascii "packet falsey {
+    @tag(1)
+    repeat zchar[00] tag,
 }")).
-Eval vm_compute in ("<<<M4355>>>" ++ check (runes_of_ascii "packet len {
-    @calculatedFrom(""it's"")
-    calculatedFrom msg_type,
-}")).
-Eval vm_compute in ("<<<M2285>>>" ++ check (runes_of_ascii "options
-{ } options { BodyLength= u16 Header= f64 ; u128 =
-    true")).
-Eval vm_compute in ("<<<M4289>>>" ++ check (runes_of_ascii "  // c
-  packet
-
-x  {
-	@rightPad ( ) repeat roots Logon	`doc` , 
-}")).
-Eval vm_compute in ("<<<M1235>>>" ++ check (runes_of_ascii "options	{ falsey // " ++ [27880; 37322]%N ++ runes_of_ascii "
-=
-""\" ++ [233]%N ++ runes_of_ascii """	; lengthOf
-=
-0	;
-    // c
-    }
-")).
-Eval vm_compute in ("<<<M2909>>>" ++ check (runes_of_ascii "packet A { Inner { match k as n { [1,22,007,4,5] : B, }, }, }")).
-Eval vm_compute in ("<<<M2720>>>" ++ check (runes_of_ascii "i8 root root 10 [ [ u32 } u8 zchar[ char packet char[] u64")).
-Eval vm_compute in ("<<<M4186>>>" ++ check (runes_of_ascii "root packet P {
-    hdr {
-        u8 a,
-    },
-    u8 x,
-}")).
-Eval vm_compute in ("<<<M509>>>" ++ check (runes_of_ascii "root packet i64_ {tag
-Pad, } root packet
-    charz {
-}")).
-Eval vm_compute in ("<<<M650>>>" ++ check (runes_of_ascii "packet
-    u128 {
-repeat string
-As`say ""hi""`, } 	 ")).
+Eval vm_compute in ("<<<M45>>>" ++ check (runes_of_ascii "
+MetaData int	{ string f32a//	t
+`two words`
+, } //")).
 Eval vm_compute in ("<<<M3526>>>" ++ check (runes_of_ascii "
 
   root
@@ -2674,68 +2506,78 @@ x
 , 
 }
 ")).
-Eval vm_compute in ("<<<M4354>>>" ++ check (runes_of_ascii "  packet	// packet A { u8 x, }
-  rootA  {
+Eval vm_compute in ("<<<M4174>>>" ++ check (runes_of_ascii "options {
+    a = 1;
 }
-")).
-Eval vm_compute in ("<<<M4588>>>" ++ check (runes_of_ascii "packet string_ {
-    int64 calculatedFrom,
+
+options {
+    a = 1;
 }")).
-Eval vm_compute in ("<<<M1081>>>" ++ check (runes_of_ascii "packet // packet A { u8 x, }
-rootA
-{
-}")).
-Eval vm_compute in ("<<<M3199>>>" ++ check (runes_of_ascii "root packet u128 { chars `it's` // c
+Eval vm_compute in ("<<<M737>>>" ++ check (runes_of_ascii "  MetaData
+options1{ float _x `{ , }`
 , }")).
-Eval vm_compute in ("<<<M3936>>>" ++ check (runes_of_ascii "root packet u128 {
-    chars `it's`,
+Eval vm_compute in ("<<<M3024>>>" ++ check (runes_of_ascii "root packet A {
+    u8 x `a
+    b
+  c`,
 }")).
-Eval vm_compute in ("<<<M3771>>>" ++ check (runes_of_ascii "root packet A {
-}
+Eval vm_compute in ("<<<M3828>>>" ++ check (runes_of_ascii "root packet A {
+    u8 x `x
+        `,
+}")).
+Eval vm_compute in ("<<<M757>>>" ++ check (runes_of_ascii "MetaData Pad { crc x_y_z`{ , }`,
+} 	 ")).
+Eval vm_compute in ("<<<M4541>>>" ++ check (runes_of_ascii "
+packet
 
-root packet B {
+    o
+	{ 
+}  // " ++ [128512]%N ++ runes_of_ascii " emoji
+")).
+Eval vm_compute in ("<<<M2614>>>" ++ check (runes_of_ascii "packet A { match k as { 1 : B }, }")).
+Eval vm_compute in ("<<<M1027>>>" ++ check (runes_of_ascii "options
+    {Header = '\x00';
 }")).
-Eval vm_compute in ("<<<M1038>>>" ++ check (runes_of_ascii "root packet Logon
-    //
-    { }
+Eval vm_compute in ("<<<M3043>>>" ++ check (runes_of_ascii "packet A {
+    u8 x `tab
+	x`,
+}")).
+Eval vm_compute in ("<<<M3132>>>" ++ check (runes_of_ascii "packet A {
+ u8 x `d" ++ [8203]%N ++ runes_of_ascii "`, // c" ++ [8203]%N ++ runes_of_ascii "
+}")).
+Eval vm_compute in ("<<<M3683>>>" ++ check (runes_of_ascii "
 
+  // c 	
+    packet 
+A	{ }")).
+Eval vm_compute in ("<<<M1184>>>" ++ check (runes_of_ascii "
+MetaData matchKey
+    {	}")).
+Eval vm_compute in ("<<<M3256>>>" ++ check (runes_of_ascii "root packet // c
+pack { }")).
+Eval vm_compute in ("<<<M1175>>>" ++ check (runes_of_ascii "options { u = string }
 ")).
-Eval vm_compute in ("<<<M2828>>>" ++ check (runes_of_ascii "@calculatedFrom( x_y_z { """" @tag(")).
-Eval vm_compute in ("<<<M1202>>>" ++ check (runes_of_ascii "options
-{ lengthOf = false ; }
-")).
-Eval vm_compute in ("<<<M3097>>>" ++ check (runes_of_ascii "packet A {
- u8 x `d" ++ [8232]%N ++ runes_of_ascii "`, // c" ++ [8232]%N ++ runes_of_ascii "
+Eval vm_compute in ("<<<M2575>>>" ++ check (runes_of_ascii "packet A { x y `d`, }")).
+Eval vm_compute in ("<<<M3729>>>" ++ check (runes_of_ascii "MetaData leftPad {
 }")).
-Eval vm_compute in ("<<<M2651>>>" ++ check (runes_of_ascii "MetaData M { @tag(1) u8 x, }")).
-Eval vm_compute in ("<<<M917>>>" ++ check (runes_of_ascii "
-options {	i8i8 = ""a\\"" }")).
-Eval vm_compute in ("<<<M3255>>>" ++ check (runes_of_ascii "root
-// c
-packet pack { }")).
-Eval vm_compute in ("<<<M2577>>>" ++ check (runes_of_ascii "packet A { x `d` `e`, }")).
-Eval vm_compute in ("<<<M3148>>>" ++ check (runes_of_ascii "packet A {
-}// a// b")).
-Eval vm_compute in ("<<<M803>>>" ++ check (runes_of_ascii "MetaData
-zchar{ }
-")).
-Eval vm_compute in ("<<<M3883>>>" ++ check (runes_of_ascii "packet msg_type {
-}")).
-Eval vm_compute in ("<<<M3100>>>" ++ check (runes_of_ascii "packet A {
+Eval vm_compute in ("<<<M3472>>>" ++ check (runes_of_ascii "MetaData // c
+o { }")).
+Eval vm_compute in ("<<<M3095>>>" ++ check (runes_of_ascii "packet A {
 }
-// c" ++ [8233]%N)).
-Eval vm_compute in ("<<<M2635>>>" ++ check (runes_of_ascii "packet A { } // c")).
+// c" ++ [8232]%N)).
+Eval vm_compute in ("<<<M2633>>>" ++ check (runes_of_ascii "packet A { } root")).
 Eval vm_compute in ("<<<M1874>>>" ++ check (runes_of_ascii "MetaData
     u {")).
-Eval vm_compute in ("<<<M3693>>>" ++ check (runes_of_ascii "MetaData o {
+Eval vm_compute in ("<<<M4073>>>" ++ check (runes_of_ascii "MetaData o {
 }")).
-Eval vm_compute in ("<<<M436>>>" ++ check (runes_of_ascii " /// triple")).
-Eval vm_compute in ("<<<M2835>>>" ++ check (runes_of_ascii "char[ i64")).
-Eval vm_compute in ("<<<M2492>>>" ++ check (runes_of_ascii "@tag(1)")).
-Eval vm_compute in ("<<<M2338>>>" ++ check (runes_of_ascii "// c
+Eval vm_compute in ("<<<M409>>>" ++ check (runes_of_ascii "// " ++ [128512]%N ++ runes_of_ascii " emoji
 ")).
-Eval vm_compute in ("<<<M3109>>>" ++ check (runes_of_ascii "// c" ++ [8287]%N)).
-Eval vm_compute in ("<<<M2682>>>" ++ check (runes_of_ascii "
-	 ")).
-Eval vm_compute in ("<<<M2550>>>" ++ check (runes_of_ascii "a" ++ [12]%N ++ runes_of_ascii "b")).
-Eval vm_compute in ("<<<M2737>>>" ++ check (runes_of_ascii "*F")).
+Eval vm_compute in ("<<<M1864>>>" ++ check (runes_of_ascii "MetaData")).
+Eval vm_compute in ("<<<M991>>>" ++ check (runes_of_ascii " // " ++ [27880; 37322]%N)).
+Eval vm_compute in ("<<<M2450>>>" ++ check (runes_of_ascii "true1")).
+Eval vm_compute in ("<<<M470>>>" ++ check (runes_of_ascii "//
+
+")).
+Eval vm_compute in ("<<<M2438>>>" ++ check (runes_of_ascii "u8x")).
+Eval vm_compute in ("<<<M2846>>>" ++ check (runes_of_ascii "[ ;")).
+Eval vm_compute in ("<<<M2519>>>" ++ check (runes_of_ascii "`")).
